@@ -12,2678 +12,1323 @@ Definition show_fres (r : fres) : string :=
   end.
 Definition check (rs : list rune) : string := digest (show_fres (format_res rs)).
 Definition full (rs : list rune) : string := show_fres (format_res rs).
-Eval vm_compute in ("<<<M3620>>>" ++ check (runes_of_ascii "options { // c1a
-  // c1b
-StringPrefixLenType =
-    // c3
-u16 ; // c5
-ArrayPrefixLenType =
-    // c7
-u8 ; FixedStringPadFromLeft // c10a
+Eval vm_compute in ("<<<M1554>>>" ++ check (runes_of_ascii "// top
+options // c0
+{ // c1
+StringPrefixLenType // c2a
+  // c2b
+= // c3a
+  // c3b
+u64
+    // c4
+; // c5a
+  // c5b
+ArrayPrefixLenType = // c7
+u16
+    // c8
+; // c9
+FixedStringPadChar // c10a
   // c10b
 =
     // c11
-true // c12
-; // c13a
-  // c13b
-FixedStringPadChar // c14
-= // c15
-' ' ; // c17
-} // c18a
-  // c18b
-packet // c19
-Quote
-    // c20
-{
-    // c21
-int64
-    // c22
-OrderId // c23a
-  // c23b
-, char[] // c25
-Ref // c26a
-  // c26b
-, // c27
-@leftPad ( // c29a
+' ' // c12
+; }
+    // c14
+packet
+    // c15
+Logon // c16a
+  // c16b
+{ // c17
+i32 // c18
+msgKind // c19
+, repeat // c21a
+  // c21b
+InOrderid65 // c22
+{ // c23
+u8 pad0 , }
+    // c27
+, i8 // c29a
   // c29b
-'0'
-    // c30
-) // c31a
-  // c31b
-char[ // c32a
-  // c32b
-5 // c33
-] // c34a
+tag7 // c30
+, // c31
+@leftPad // c32
+( // c33
+' ' // c34a
   // c34b
-price , }
-    // c37
-packet // c38
-Heartbeat // c39
-{ zchar[ // c41
-3 ] venue , // c45a
-  // c45b
-string // c46a
-  // c46b
-Flags
-    // c47
-, // c48a
+) // c35
+char[ // c36a
+  // c36b
+12 // c37
+] // c38
+x // c39a
+  // c39b
+, } packet // c42a
+  // c42b
+Leg
+    // c43
+{ // c44
+char[]
+    // c45
+f1
+    // c46
+, repeat // c48a
   // c48b
-} packet // c50
-Trade
+char[
+    // c49
+5 ]
     // c51
-{ // c52a
+Px // c52a
   // c52b
-repeat
-    // c53
-InTag787 // c54
-{ i32 // c56
-venue // c57
-,
-    // c58
-char[ 5 ] // c61
-sym // c62a
+, // c53a
+  // c53b
+InQty34 // c54
+{ // c55a
+  // c55b
+repeat // c56
+char[ // c57
+6 // c58
+] Qty // c60a
+  // c60b
+, char[ // c62a
   // c62b
-,
+7
     // c63
-repeat InPx98 // c65
-{ char[ // c67a
-  // c67b
-11
-    // c68
-] Qty
-    // c70
+] seqNo // c65
+,
+    // c66
+string // c67
+count , // c69
+} // c70
 , // c71a
   // c71b
-Heartbeat // c72
-, char[] // c74
-price // c75
-, // c76a
-  // c76b
-u32 // c77a
+Logon // c72
+,
+    // c73
+}
+    // c74
+packet Party
+    // c76
+{ // c77a
   // c77b
-x // c78
-,
-    // c79
-float64 // c80
-count // c81a
-  // c81b
-, repeat // c83
-Quote
-    // c84
-, // c85a
-  // c85b
-} ,
-    // c87
-zchar[ // c88a
-  // c88b
-7
-    // c89
-]
-    // c90
-Note
-    // c91
-, // c92a
-  // c92b
-repeat
-    // c93
-char[ // c94a
-  // c94b
-1 ] // c96a
-  // c96b
-Tail // c97a
-  // c97b
-,
-    // c98
-} // c99a
-  // c99b
-, repeat char[ // c102
-2
-    // c103
-] // c104a
-  // c104b
-seqNo , // c106a
-  // c106b
-InTail55 // c107a
-  // c107b
-{ // c108
-repeat // c109a
-  // c109b
-Quote // c110
-, // c111
-string
-    // c112
-msgKind , // c114a
-  // c114b
-InPx18 { // c116a
-  // c116b
-char[] count ,
-    // c119
-repeat // c120
-Quote , // c122
-uint16 // c123a
-  // c123b
-Qty ,
-    // c125
-}
-    // c126
-,
-    // c127
-char[ // c128a
-  // c128b
-4 ]
-    // c130
-seqNo
-    // c131
-,
-    // c132
-repeat // c133
-Heartbeat
-    // c134
-, repeat string sym // c138
-, // c139a
-  // c139b
-} // c140
-, repeat
-    // c142
-Quote // c143
-, // c144
-Heartbeat // c145
-, @leftPad ( // c148
-' ' // c149
-) char[ 10 // c152a
-  // c152b
-] OrderId // c154a
-  // c154b
-, // c155a
-  // c155b
-} // c156
-root // c157a
-  // c157b
-packet // c158
-Fill
-    // c159
-{ Heartbeat
-    // c161
-, uint32 // c163a
-  // c163b
-count
-    // c164
-, // c165
-u8 // c166
-OrderId // c167
-,
-    // c168
-match OrderId // c170
-as
-    // c171
-Body
-    // c172
-{
-    // c173
-96 // c174
-: // c175
-Quote
-    // c176
-,
-    // c177
-195
-    // c178
-: // c179
-Trade // c180a
-  // c180b
-, // c181a
-  // c181b
-187
-    // c182
-:
-    // c183
-Heartbeat // c184
-,
-    // c185
-}
-    // c186
-, u32
-    // c188
-venue // c189
-@calculatedFrom(
-    // c190
-""CRC32"" )
-    // c192
-,
-    // c193
-} ")).
-Eval vm_compute in ("<<<M412>>>" ++ check (runes_of_ascii "  root packet packetx { char[]  pack @lengthOf(
-    string_
-    // " ++ [128512]%N ++ runes_of_ascii " emoji
-    ) `doc`,
-    u32  float @lengthOf( a1) // `tick` ""quote"" 'q'
-`two words` , match  a1 as
-    // " ++ [27880; 37322]%N ++ runes_of_ascii "
-    o {7 : _x
-    ,
-} , repeat msg_type { o uint8x
-`crlf
-line` , }
-,char[] // `tick` ""quote"" 'q'
-u8x @lengthOf(msg_type
-)
-// " ++ [128512]%N ++ runes_of_ascii " emoji
-//
-,@calculatedFrom( ""CRC32"" )
-    i16 repeatCount
-@calculatedFrom(""a\""b""  ) , zchar[
-10 ]_x
-`line1
-line2` ,	zchar[
-10 ]
-    x `u8 x,` ,char[  0123456789
-]
-    uint8x , @calculatedFrom( ""x y"" ) int32
-//	t
-// c
-i8i8
-, }	options// " ++ [27880; 37322]%N ++ runes_of_ascii "
-{
-matchKey =""it's"" } packet
-    msg_type // packet A { u8 x, }
-{
-// trailing space 
-//
-match lengthOf as Logon { [ ""x y"" , ""a	b"", ""{,}"" ,  """ ++ [28040; 24687]%N ++ runes_of_ascii """,
-    ""{,}"" ,""{,}""
-    ]
-    // packet A { u8 x, }
-    : asx, [ """ ++ [233]%N ++ runes_of_ascii "t" ++ [233]%N ++ runes_of_ascii """
-] :
-trueish , 255
-    : Pad ,
-[""`tick`""
-, ""{,}"" ,// " ++ [128512]%N ++ runes_of_ascii " emoji
-4294967296
-, 4294967296, ""a\""b"" , ""\" ++ [233]%N ++ runes_of_ascii """
-, 0123456789 ] : u128 ,
-    ""it's"" // c
-: pack	, ""abc"":o,
-    }
-    , f32 zchar `it's`,@calculatedFrom( ""a	b"" )zchar[
-1
-]
-    msg_type // trailing space 
-@calculatedFrom( ""it's""
-) , @calculatedFrom( ""packet"" ) BodyLength{ i16 // trailing space 
-_x`{ , }`
-    //x
-    , i8
-    body `crlf
-line` ,  }
-    // packet A { u8 x, }
-    , repeat i64 uint8x
-    `say ""hi""`, // c
-} packet// a // b
-chars{ match x as options1 { 3 : //
-tag
-10
-    //x
-    :
-// a // b
-// a // b
-repeatCount[
-    65535 ] :
-len ,255 : tag  00 :
-    BodyLength }, @calculatedFrom( ""{,}"" ) MetaDataX,
-@tag(
-0
-// trailing space 
-//	t
-)repeat
-stringy	len , //	t
-@calculatedFrom( ""a	b"" )/// triple
-zchar[ 0123456789] lengthOf @lengthOf(
-A
-    )
-    `u8 x,` , @lengthOf(falsey
-    ) T
-    `// not a comment`
-,i8i8,Logon  { match
-crc as BodyLength { ""1"" : // trailing space 
-trueish ,
-    // " ++ [27880; 37322]%N ++ runes_of_ascii "
-    ""a\""b""
-    :
-matchKey , [ ""x y""] : tag
-    ,
-// trailing space 
-// " ++ [128512]%N ++ runes_of_ascii " emoji
-}
-, float @calculatedFrom(
-    """ ++ [233]%N ++ runes_of_ascii "t" ++ [233]%N ++ runes_of_ascii """ ) `line1
-line2` , msg_type@lengthOf(  i8i8)
-, calculatedFrom uint8x`tab	here`,
-// a // b
-//	t
-}
-    ,
-    }")).
-Eval vm_compute in ("<<<M4509>>>" ++ check (runes_of_ascii "packet zchar {
-    match calculatedFrom as repeatCount {
-        [""{,}""] : zchar,
-        00 : Pad,
-        0 : pack,
-    },// @lengthOf(
-    f64 o `" ++ [28040; 24687; 31867; 22411]%N ++ runes_of_ascii "`,
-    int32 f32a @lengthOf(body) `
-    `,
-    char[3] chars `crlf
-    line`,
-}
-
-// @lengthOf(
-// packet A { u8 x, }
-MetaData metadata {
-    string int,
-    len lengthOf,
-}
-
-root packet A {
-    @tag(0123456789)
-    zchar[0123456789] BodyLength,
-    @leftPad('0')
-    @rightPad(' ')
-    zchar[0123456789] tag `it's`,
-    @tag(007)
-    // trailing space 
-    @tag(7)
-    falsey @calculatedFrom(""\" ++ [233]%N ++ runes_of_ascii """),
-    @calculatedFrom(""{,}"")
-    repeat Packet,
-    @lengthOf(u)
-    @calculatedFrom(""a\""b"")
-    @lengthOf(lengthOf)
-    char[] uint8x,
-    @leftPad('\x00')
-    // trailing space 
-    repeat T {
-        i8i8 a1,
-        char[65535] chars `u8 x,`,
-        Pad,
-    },
-    @lengthOf(o)
-    u8 x,
-    @calculatedFrom(""a	b"")
-    lengthOf `// not a comment`,
-    A {
-        repeat calculatedFrom matchKey,
-        options1 @calculatedFrom(""a	b""),// trailing space 
-        repeat u `line1
-        line2`,
-    },
-}
-
-packet i8i8 {
-}
-
-packet pack {
-    zchar[0123456789] leftPad `
-    `,
-    @rightPad('\x00')
-    repeat int `" ++ [28040; 24687; 31867; 22411]%N ++ runes_of_ascii "`,
-    match Packet as BodyLength {
-        [00, 7] : falsey,
-    },
-    @tag(00)
-    repeat zchar[1] len `u8 x,`,
-    @leftPad()
-    rootA @lengthOf(len),
-    @tag(42)
-    // `tick` ""quote"" 'q'
-    @lengthOf(i64_)
-    repeat len {
-        x {
-            Logon {
-                options1 Logon,
-            },
-            stringy {
-                string body @lengthOf(tag),
-            },
-            falsey falsey,
-        },
-        MetaDataX roots `// not a comment`,
-    },
-}")).
-Eval vm_compute in ("<<<M68>>>" ++ check (runes_of_ascii "MetaData
-len { i8 BodyLength , u32
-    u `tab	here`,
-    // `tick` ""quote"" 'q'
-    calculatedFrom	asx `" ++ [28040; 24687; 31867; 22411]%N ++ runes_of_ascii "` /// triple
-,
-Logon Packet `// not a comment`
-    ,
-    } //
-root packet string_ { zchar[ 00
-]
-options1	, match
-x_y_z as msg_type{	""it's""
-    // c
-    :  T 0123456789: a1 10 :
-trueish
-, } ,} packet
-len { int64 crc ,  body {
-f64 leftPad , a1, }
-    , repeat uint8x {repeat f32
-string_`" ++ [28040; 24687; 31867; 22411]%N ++ runes_of_ascii "`
-    , int8 T @calculatedFrom( """"
-    ) `line1
-line2` ,
-uint8 repeatCount	,
-} , u64 Foo `line1
-line2`	, @tag(1 ) repeat
-matchKey
-{ i8	x_y_z @lengthOf(Z9_ )// packet A { u8 x, }
-`tab	here` , calculatedFrom
-trueish// trailing space 
-, uint16 charz
-    // packet A { u8 x, }
-    @calculatedFrom(
-    ""{,}"" )`line1
-line2`	, } ,
-// @lengthOf(
-//
-uint32
-    metadata, @lengthOf( msg_type )repeat Packet { zchar[
-255
-]u8x @calculatedFrom( ""x y"")
-//
-// packet A { u8 x, }
-`crlf
-line`	, repeat
-// `tick` ""quote"" 'q'
-//
-u128 ,// packet A { u8 x, }
-float64 int ,
-    repeat Header	{ char[ 42 ]roots
-    @calculatedFrom(
-    //	t
-    ""CRC32"") `two words`,
-roots @calculatedFrom( ""a	b"" ) `two words`
-// packet A { u8 x, }
-// c
-, u32
-    // c
-    packetx
-@lengthOf( roots
-) , repeat float	BodyLength	`" ++ [233]%N ++ runes_of_ascii "` , } , }	,match
-float
-as A
-{	[ 7 , ""a	b"" ]
-:	Header ,[
-007	, ""1""
-    ]
-// @lengthOf(
-// @lengthOf(
-: charz
-    , ""\" ++ [233]%N ++ runes_of_ascii """ : i8i8 00 :	charz // packet A { u8 x, }
-42	:i64_
-, } , match
-// `tick` ""quote"" 'q'
-//
-uint8x as u8x{ 255 :
-    int } ,	}
-")).
-Eval vm_compute in ("<<<M449>>>" ++ check (runes_of_ascii "packet f32a
-{ @calculatedFrom( // " ++ [27880; 37322]%N ++ runes_of_ascii "
-""" ++ [128512]%N ++ runes_of_ascii """ )	char[65535
-    ] Logon , }
-    packet calculatedFrom { char[ 00
-// c
-// @lengthOf(
-]
-    x `u8 x,` , repeat u8x{
-repeat float64
-Packet ,} ,
-    repeat
-    Z9_ leftPad, @calculatedFrom(""{,}"" )  repeat	Header	Foo , @tag(
-    4294967296)
-    @calculatedFrom(
-""it's"" )@lengthOf(Logon )char[ 10
-    /// triple
-    ] len ``, char[ 7
-    ] lengthOf
-// a // b
-// " ++ [128512]%N ++ runes_of_ascii " emoji
-@calculatedFrom( """ ++ [28040; 24687]%N ++ runes_of_ascii """ ) `
-`,
-    // @lengthOf(
-    @lengthOf(i8i8
-)  repeat //	t
-string_ trueish `doc`
-    ,
-    // " ++ [27880; 37322]%N ++ runes_of_ascii "
-    match BodyLength // a // b
-as //	t
-rootA // @lengthOf(
-{
-""packet"": uint8x , }, match u128  as float {""" ++ [233]%N ++ runes_of_ascii "t" ++ [233]%N ++ runes_of_ascii """
-: stringy	""packet"" : lengthOf , """ ++ [233]%N ++ runes_of_ascii "t" ++ [233]%N ++ runes_of_ascii """
-:
-    // " ++ [27880; 37322]%N ++ runes_of_ascii "
-    lengthOf,""" ++ [128512]%N ++ runes_of_ascii """ :
-    lengthOf,""it's"" :As [""// no comment""	]  : int
-// " ++ [27880; 37322]%N ++ runes_of_ascii "
-/// triple
-,},
-    }	root packet // " ++ [27880; 37322]%N ++ runes_of_ascii "
-_x	{Header `say ""hi""` ,
-@leftPad ( '\x00' )@lengthOf( Packet
-    ) @rightPad	( ' '  )string msg_type
-    @calculatedFrom( """ ++ [233]%N ++ runes_of_ascii "t" ++ [233]%N ++ runes_of_ascii """// " ++ [128512]%N ++ runes_of_ascii " emoji
-) `tab	here` ,
-i64
-zchar //	t
-`crlf
-line`
-,i32
-x_y_z, @tag( 7  ) @leftPad
-(' ' )
-@calculatedFrom(
-//
-//	t
-""1""
-    )falsey`two words` , } // " ++ [27880; 37322]%N ++ runes_of_ascii "
-packet metadata { f64 u8x,
-u16  o `crlf
-line`
-    ,  msg_type {
-u8 a1 @lengthOf( u ) `it's`  ,// trailing space 
-}
-,@lengthOf( rootA /// triple
-) f32a { repeat
-    u16 uint8x, }
-,//
-}
-    options {
-} // " ++ [128512]%N ++ runes_of_ascii " emoji")).
-Eval vm_compute in ("<<<M1323>>>" ++ check (runes_of_ascii "packet// c
-lengthOf
-{ matchKey `doc` , i8i8
-{ match crc  as zchar
-    {	[ 1, ""abc"" ,	0 ,
-    0123456789,
-65535 ]
-    :chars , ""\n"" : uint8x ""a\""b"":  int ,[
-""`tick`""
-    ,""a	b"" , ""a	b""
-    ,4294967296 , 4294967296	, """" , ""a\""b"" ] :
-string_ ,
-0123456789 :// @lengthOf(
-A
-    ,""packet""
-    // a // b
-    :asx  } ,char[00
-//
-//
-] u8x
-`u8 x,`, u8x { uint32 float
-@calculatedFrom( ""{,}"")
-,
-//	t
-// " ++ [128512]%N ++ runes_of_ascii " emoji
-char[
-0
-// trailing space 
-// `tick` ""quote"" 'q'
-] zchar
-    ,	}, falsey@calculatedFrom( """ ++ [128512]%N ++ runes_of_ascii """ )
-    ,} // packet A { u8 x, }
-, @calculatedFrom( ""1"" )
-zchar[
-255
-    ]
-// @lengthOf(
-//
-metadata
-@lengthOf(	packetx	) , Header @calculatedFrom(
-""CRC32"" ) ,
-// c
-// trailing space 
-float @lengthOf(crc ) ``, @tag(42 )@lengthOf(
-    A ) @lengthOf( u128) stringy// " ++ [27880; 37322]%N ++ runes_of_ascii "
-`" ++ [233]%N ++ runes_of_ascii "` ,	@leftPad ( '0')
-    char[4294967296  ]
-float , u`" ++ [233]%N ++ runes_of_ascii "` ,@lengthOf(falsey ) // @lengthOf(
-@lengthOf( /// triple
-lengthOf
-) repeat f32 matchKey `line1
-line2`
-    ,
-}
-options
-    { lengthOf= string;}packet falsey{
-@tag( 1
-)int16 repeatCount
-@lengthOf( charz
-)
-`a\` // @lengthOf(
-, repeat u64 MetaDataX `say ""hi""` , } options {  x
-    = // packet A { u8 x, }
-""abc"" }
-MetaData BodyLength {zchar[ 4294967296]	zchar ,}")).
-Eval vm_compute in ("<<<M1358>>>" ++ check (runes_of_ascii "root  packet
-roots {
-repeat rootA`{ , }`
-,BodyLength, @lengthOf(
-    int )
-    u64	pack
-`// not a comment` , chars @lengthOf( crc
-) // packet A { u8 x, }
-,
-// @lengthOf(
-// `tick` ""quote"" 'q'
-tag `u8 x,` , match x_y_z	as chars{// " ++ [128512]%N ++ runes_of_ascii " emoji
-[ 65535 ,""x y""// a // b
-,
-    10	, 4294967296]: //x
-repeatCount,
-[ 255 ] // @lengthOf(
-: i8i8,4294967296
-    : metadata
-, [ 10 , """", 255 ,0 , ""abc""
-    , 10 ]  :rootA
-    // @lengthOf(
-    ,
-[ ""1"" , ""1""
-    ]
-:uint8x , ["""" , 10
-    // trailing space 
-    ]
-:
-    options1 ,} ,  }packet trueish {uint16
-i64_ , }
-    packet zchar
-    {Logon {
-// " ++ [27880; 37322]%N ++ runes_of_ascii "
-// @lengthOf(
-match pack as
-asx {[
-1 ,// `tick` ""quote"" 'q'
-10] : Logon , [7 ]: pack
-, [
-42,  ""// no comment"" ,
-    7 ,00 ,65535
-]
-    : x
-, //
-""1""
-: uint8x, """" :A 65535	:
-u8x } ,
-}  ,x `u8 x,`, @tag( 65535
-) string stringy `say ""hi""`  , repeat uint16 leftPad `
-` ,
-match options1
-as Foo
-    { ""abc"" : falsey	,
-3:	T
-    ,}
-,zchar[ 4294967296 ]
-charz
-    @lengthOf(	As) , i64 Packet , @lengthOf( MetaDataX ) @lengthOf( metadata	) @calculatedFrom( """ ++ [128512]%N ++ runes_of_ascii """ ) uint8 T @calculatedFrom( """ ++ [128512]%N ++ runes_of_ascii """ ) `" ++ [233]%N ++ runes_of_ascii "` , } // `tick` ""quote"" 'q'")).
-Eval vm_compute in ("<<<M252>>>" ++ check (runes_of_ascii "packet u  { Header {
-float64	Foo@lengthOf( Pad
-    ) `{ , }`,	leftPad @calculatedFrom(""a	b"" )
-    ,msg_type {
-Z9_	@lengthOf(
-    u8x ) ,
-    falsey , len @lengthOf( float // " ++ [27880; 37322]%N ++ runes_of_ascii "
-) `it's`
-    , repeat int64
-options1	`a\` , } , // trailing space 
-} ,
-//	t
-// " ++ [128512]%N ++ runes_of_ascii " emoji
-falsey// `tick` ""quote"" 'q'
-u8x , zchar[  1 ]
-x `` ,
-    @lengthOf( uint8x
-) crc
-    @lengthOf(matchKey )  , repeat f32 string_
-// `tick` ""quote"" 'q'
-//
-,packetx,
-    // " ++ [27880; 37322]%N ++ runes_of_ascii "
-    u8x
-    { f64
-Header , repeat uint8 uint8x , x_y_z
-{  match string_
-// " ++ [27880; 37322]%N ++ runes_of_ascii "
-//	t
-as a1 { [// `tick` ""quote"" 'q'
-255
-]  : f32a// @lengthOf(
-, [
-""packet""  ,""1"" , 00 ,
-    """ ++ [128512]%N ++ runes_of_ascii """,  4294967296 , 4294967296]:Logon , } , pack @lengthOf( options1 ), zchar[  1 ] crc ``,}	, } , rootA zchar ,}
-options { uint8x
-= 4294967296
-// " ++ [27880; 37322]%N ++ runes_of_ascii "
-// @lengthOf(
-tag // `tick` ""quote"" 'q'
-=
-float32 ; o = true ; // trailing space 
-rootA =
-    // @lengthOf(
-    ""packet"" ; } //x
-packet float
-    {
-    } // " ++ [27880; 37322]%N ++ runes_of_ascii "
-options	{ // " ++ [27880; 37322]%N ++ runes_of_ascii "
-msg_type// c
-= i16 ;
-    trueish = zchar[ 1 ] ; Logon =
-    ""abc"" rootA = i16 ; } MetaData rootA
-{
-}
-")).
-Eval vm_compute in ("<<<M204>>>" ++ check (runes_of_ascii "options {
-chars  =
-    //x
-    ' '	}
-root packet	string_ {i8i8 @lengthOf(
-Z9_ )
-,	match int as chars // c
-{ 007: body	,[ // packet A { u8 x, }
-42 ] : int	, ""`tick`"" : options1
-, } ,
-@leftPad ( ' ' )uint16 crc `it's` , // a // b
-float64  packetx
-@lengthOf( crc // " ++ [27880; 37322]%N ++ runes_of_ascii "
-)// trailing space 
-, @tag(4294967296
-) match int
-as chars{4294967296
-    : Foo ,
-1:
-asx 10
-: Pad
-    0123456789	: string_
-,
-3
-// " ++ [27880; 37322]%N ++ runes_of_ascii "
-// " ++ [128512]%N ++ runes_of_ascii " emoji
-: T , ""it's""  : As  } , repeat  float falsey `say ""hi""`  ,
-match uint8x as zchar { ""// no comment""
-    : body
-, 0123456789 : crc , ""{,}"" : o } ,repeat o chars ,uint32
-As
-`doc` ,
-repeat trueish
-{ char[
-    7
-] i64_
-`{ , }`  , }
-, } packet
-    Packet {
-zchar[ 0123456789 ] matchKey @lengthOf( chars
-)  ,  x
-//	t
-// a // b
-{
-u64 o ,} , zchar[
-    // a // b
-    1 ]
-    MetaDataX
-@calculatedFrom(
-"""" ), char[]lengthOf// trailing space 
-@calculatedFrom( // " ++ [27880; 37322]%N ++ runes_of_ascii "
-""a\""b""
-) `
-` ,@rightPad( ' ' ) //	t
-uint16
-len `a\` , @lengthOf( //x
-tag )
-char[ 65535
-] pack ``, }
-")).
-Eval vm_compute in ("<<<M196>>>" ++ check (runes_of_ascii "/// triple
-MetaData roots
-    { string
-Z9_ `say ""hi""`
-    //
-    ,o
-    tag ,char[4294967296 // " ++ [128512]%N ++ runes_of_ascii " emoji
-] body `crlf
-line`
-,
-    _x lengthOf `tab	here` , } options { repeatCount	= ""x y"" ; T = """ ++ [28040; 24687]%N ++ runes_of_ascii """ }
-    /// triple
-    packet int{ @calculatedFrom( ""CRC32"" )int64 f32a, roots @calculatedFrom( ""it's"" )`` ,@calculatedFrom(""a\\"" )@tag( 007 ) char[ 255//	t
-] crc @lengthOf(packetx )
-    ,
-match
-    Pad as string_ { [""\" ++ [233]%N ++ runes_of_ascii """,3
-    // " ++ [27880; 37322]%N ++ runes_of_ascii "
-    ] : lengthOf  ,[ 42
-    ]:
-// packet A { u8 x, }
-// packet A { u8 x, }
-body ,
-7 : i8i8
-    ,0123456789:
-options1
-,//x
-[ 00 ] : Z9_ ,  }// @lengthOf(
-,float
-,// " ++ [27880; 37322]%N ++ runes_of_ascii "
-} MetaData zchar
-    {
-    zchar[
-3 ]
-    options1
-    `line1
-line2` ,}  packet asx
-{ zchar[
-    42// " ++ [128512]%N ++ runes_of_ascii " emoji
-]
-falsey ,	@calculatedFrom(
-""1""
-)
-repeat string As `" ++ [233]%N ++ runes_of_ascii "`, char[] trueish
-    , int32 Header , repeat  stringy
-`crlf
-line`, string
-x_y_z,
-f64 T
-//x
-// `tick` ""quote"" 'q'
-, uint8x
-@lengthOf( charz
-)
-    `a\` , }")).
-Eval vm_compute in ("<<<M3649>>>" ++ check (runes_of_ascii "options {
-    LittleEndian = false;
-    FixedStringPadFromLeft = false;
-    FixedStringPadChar = ' ';
-}
-packet Fill {
-    uint16 Qty,
-    uint64 clOrdID,
-    repeat i64 Flags,
-}
-packet Ack {
-    zchar[7] clOrdID,
-    u64 lastPx,
-    char[] Note,
-    repeat Fill,
-    int32 count,
-}
-packet Quote {
-    u8 venue,
-    InRef40 {
-        char[] Qty,
-    },
-    zchar[5] Flags,
-    @rightPad('\x00') char[12] msgKind,
-}
-packet Logout {
-    InSym79 {
-        int32 Qty,
-        Fill,
-        char[3] x,
-        repeat InNote29 {
-            i16 price,
-            Ack,
-            f64 x,
-            zchar[8] count,
-        },
-    },
-}
-root packet Logon {
-    zchar[1] sym,
-    u32 count,
-    u16 tag7 @lengthOf(Body),
-    match count as Body {
-        [122, 152] : Ack,
-        118 : Logout,
-        61 : Quote,
-        161 : Fill,
-    },
-    u32 Acct @calculatedFrom(""CRC32""),
-}
-")).
-Eval vm_compute in ("<<<M759>>>" ++ check (runes_of_ascii "packet x {
-    u16
-    msg_type @lengthOf(BodyLength ) ,// trailing space 
-@calculatedFrom(  """ ++ [28040; 24687]%N ++ runes_of_ascii """ ) repeat Header { char[
-    0123456789 ] // " ++ [128512]%N ++ runes_of_ascii " emoji
-repeatCount ,zchar[ 7] i64_
-@calculatedFrom(
-""" ++ [28040; 24687]%N ++ runes_of_ascii """ ) , repeat T zchar`tab	here`,
-    } , uint8
-    body`doc`, repeat char[]i8i8 ,
-uint32 f32a@calculatedFrom(
-""`tick`""
-// packet A { u8 x, }
-// packet A { u8 x, }
-) ,
-@rightPad ( ' ' ) match
-rootA as matchKey{
-42:
-lengthOf
-    // `tick` ""quote"" 'q'
-    ""// no comment"" : Z9_ , [""a\\"" , /// triple
-1]:
-    // @lengthOf(
-    len
-, 10
-:trueish,
-    }
-    ,
-    f64 Logon
-@lengthOf( T ) //
-`crlf
-line` , match
-/// triple
-// @lengthOf(
-float	as i8i8 { ""\n"": i64_ , } ,
-@lengthOf( u8x)// trailing space 
 @leftPad
-('\x00'
-    ) char[  007] body	`it's` , @leftPad (
-'0' )
-    string crc @calculatedFrom( ""a\\"" ) `" ++ [28040; 24687; 31867; 22411]%N ++ runes_of_ascii "`  , }
-")).
-Eval vm_compute in ("<<<M1346>>>" ++ check (runes_of_ascii "packet	i64_
-    // `tick` ""quote"" 'q'
-    { @lengthOf(  charz )  zchar[
-00  ]charz	`
-`	,@rightPad ( '0')
-@calculatedFrom(  ""`tick`"" ) i16 charz , repeat Pad { uint8x
-MetaDataX , int { repeat // packet A { u8 x, }
-uint64 u8x ,// packet A { u8 x, }
-repeat
-    // `tick` ""quote"" 'q'
-    uint8x
-    { // a // b
-repeat Z9_
-x_y_z ,
-    match
-    x_y_z
-// a // b
-// a // b
-as _x {
-    007 :crc	,
-[ 00 ,  0
-, 1 , 007 ,
-4294967296 ]:
-    u128
-,  }
-, char[
-    42
-//	t
-//
-] float,}, } , char[]x
-    ,repeat
-zchar  {
-match
-Logon  as rootA {	0
-:
-    chars , [ 42
-] :repeatCount
-    // c
-    ,
-""" ++ [233]%N ++ runes_of_ascii "t" ++ [233]%N ++ runes_of_ascii """
-:	BodyLength, ""x y"" : Z9_
-, [4294967296	, 42 ,
-3 , 255 , 00 ,
-    ""x y"" , 10
-    , 42 ]
-    : falsey , }, },
-}  , }// a // b
-packet	options1// " ++ [128512]%N ++ runes_of_ascii " emoji
-{ // c
-len @lengthOf(T
-), }")).
-Eval vm_compute in ("<<<M4137>>>" ++ check (runes_of_ascii "root packet pack {
-}
-
-MetaData falsey {
-    char[] A `// not a comment`,
-}
-
-packet uint8x {
-    repeat o {
-        u64 string_ @calculatedFrom(""" ++ [233]%N ++ runes_of_ascii "t" ++ [233]%N ++ runes_of_ascii """),
-    },
-    repeat string_ `" ++ [28040; 24687; 31867; 22411]%N ++ runes_of_ascii "`,
-    repeat u {
-        packetx @lengthOf(len) `doc`,
-    },
-    @lengthOf(u8x)
-    float32 MetaDataX @calculatedFrom(""" ++ [233]%N ++ runes_of_ascii "t" ++ [233]%N ++ runes_of_ascii """),
-    uint8 MetaDataX `it's`,
-    @rightPad('\x00')
-    repeat crc {
-        x_y_z @lengthOf(As) `line1
-        line2`,
-        i32 repeatCount,
-        // a // b
-        // @lengthOf(
-        repeat Pad {
-            repeat string_ `" ++ [233]%N ++ runes_of_ascii "`,
-            leftPad {
-                char[] float,
-            },
-        },
-    },
-    @calculatedFrom(""it's"")
-    zchar[42] A @lengthOf(matchKey),
-    roots @calculatedFrom(""CRC32"") `a\`,
-}")).
-Eval vm_compute in ("<<<M4279>>>" ++ check (runes_of_ascii "// @lengthOf(
-MetaData Pad {
-}
-
-MetaData msg_type {
-    // packet A { u8 x, }
-    packetx i64_,
-    char[1] Foo `" ++ [233]%N ++ runes_of_ascii "`,
-}
-
-MetaData o {
-}
-
-// `tick` ""quote"" 'q'
-options {
-    MetaDataX = u32;
-    // @lengthOf(
-    //x
-    trueish = '0'
-    options1 = 65535;
-    Pad = '0';
-    x_y_z = ""a\""b""
-}
-
-packet chars {
-    @calculatedFrom(""a\\"")
-    //	t
-    match charz as Foo {
-        [4294967296, ""CRC32"", 3, ""a\""b"", ""CRC32""] : i8i8,
-    },
-    @calculatedFrom(""" ++ [233]%N ++ runes_of_ascii "t" ++ [233]%N ++ runes_of_ascii """)
-    char[] chars @calculatedFrom(""// no comment""),
-    char[] x_y_z,
-    @lengthOf(trueish)
-    @lengthOf(packetx)
-    @lengthOf(packetx)
-    Logon @calculatedFrom(""it's""),
-    string _x,
-    uint32 packetx,
-    repeat MetaDataX `tab	here`,
-}")).
-Eval vm_compute in ("<<<M1370>>>" ++ check (runes_of_ascii "packet
-    //	t
-    As { @tag( 10 )@lengthOf(
-    chars ) zchar {
-//x
-// `tick` ""quote"" 'q'
-metadata { Header`it's`, match
-body
-as i64_ // trailing space 
-{ ""// no comment""
-    :
-    packetx ,} /// triple
-, match
-repeatCount	as asx{255
-    :
-    Foo ,	3 :	int , ""1"" :
-chars , }
-, uint32 repeatCount@lengthOf(
-    // c
-    BodyLength )
-    ``
-    , } ,roots , repeat	rootA `` ,
-char MetaDataX@lengthOf( crc
-) , } ,
-    // a // b
-    _x {
-    match As	as Foo// @lengthOf(
-{ 1 :
-    // " ++ [27880; 37322]%N ++ runes_of_ascii "
-    stringy
-//x
-//	t
-,}
-, }
-    ,
-    u8	Foo ,  @calculatedFrom( """")
-    BodyLength	, char[
-    007
-    ]
-Z9_@calculatedFrom(
-""CRC32"" ) , lengthOf , i32 //x
-f32a `{ , }` ,
-}")).
-Eval vm_compute in ("<<<M3669>>>" ++ check (runes_of_ascii "// top
-options // c0
-{ // c1a
-  // c1b
-LittleEndian // c2
-= true // c4a
-  // c4b
-; // c5
-} // c6a
-  // c6b
-packet
-    // c7
-Sub { u8
-    // c10
-a // c11a
-  // c11b
-, @calculatedFrom(
-    // c13
-""CRC16"" // c14
-) // c15
-u64 SubSum
-    // c17
-, } // c19
-root // c20
-packet
-    // c21
-Frame // c22a
-  // c22b
-{
-    // c23
-u16 // c24
-MsgType
-    // c25
-, u16
-    // c27
-BodyLen // c28a
-  // c28b
-@lengthOf( Body ) // c31a
-  // c31b
+    // c78
+( // c79a
+  // c79b
+'0' // c80a
+  // c80b
+) // c81
+char[ 10 // c83a
+  // c83b
+] // c84
+OrderId // c85a
+  // c85b
+, // c86
+string // c87a
+  // c87b
+Tail
+    // c88
 ,
-    // c32
-Sub
-    // c33
-Body // c34
-, string // c36
-note , // c38
-@calculatedFrom( ""CRC16"" // c40a
-  // c40b
-) // c41
-u64
-    // c42
-Checksum ,
-    // c44
+    // c89
+}
+    // c90
+packet
+    // c91
+Fill // c92
+{ zchar[ // c94a
+  // c94b
+5 // c95
+]
+    // c96
+venue // c97
+, zchar[ // c99a
+  // c99b
+3
+    // c100
+]
+    // c101
+clOrdID // c102a
+  // c102b
+, // c103
+InRef95 // c104
+{ InLastpx25
+    // c106
+{ // c107
 u8
-    // c45
-tail , // c47
-}
-    // c48
-")).
-Eval vm_compute in ("<<<M4107>>>" ++ check (runes_of_ascii "//x
-packet _x {
-    repeat charz {
-        repeat asx,//x
-        string metadata,//x
-        uint64 a1 @calculatedFrom(""it's"") `a\`,
-    },
-    @rightPad()
-    msg_type len ``,
-    MetaDataX asx,
-    @rightPad('\x00')
-    zchar[3] int,
-}
-
-packet Packet {
-    @leftPad()
-    string_ {
-        repeat calculatedFrom `it's`,
-    },
-    @calculatedFrom(""a	b"")
-    @tag(00)
-    @rightPad(' ')
-    u64 stringy @calculatedFrom(""a	b""),
-    @leftPad('\x00')
-    options1 `" ++ [233]%N ++ runes_of_ascii "`,
-    @rightPad()
-    repeat char[007] Foo `line1
-    line2`,
-}
-
-options {
-    len = '\x00';
-    roots = ""{,}""
-    packetx = i64;
-}")).
-Eval vm_compute in ("<<<M3578>>>" ++ check (runes_of_ascii "// top
-packet // c0a
-  // c0b
-A // c1a
-  // c1b
-{ // c2
-u8 a // c4a
-  // c4b
-, // c5a
-  // c5b
-} packet
-    // c7
-B // c8a
-  // c8b
-{ // c9a
-  // c9b
-u16 // c10a
-  // c10b
-b
-    // c11
+    // c108
+pad0 , // c110
+} , // c112a
+  // c112b
+float64
+    // c113
+OrderId // c114
+, // c115
+i32
+    // c116
+f1 // c117a
+  // c117b
 ,
-    // c12
-} // c13
-root // c14
-packet // c15a
-  // c15b
-P { // c17
-u8 // c18a
-  // c18b
-K1 , // c20a
-  // c20b
-u8 // c21
-K2 , // c23
-match K1
-    // c25
-as M1 // c27
-{ // c28a
-  // c28b
-1 // c29a
-  // c29b
-:
-    // c30
-A // c31a
-  // c31b
-, // c32a
-  // c32b
-} , match // c35
-K2 as
-    // c37
-M2
-    // c38
-{ 1 // c40a
-  // c40b
-:
-    // c41
-B , } // c44
+    // c118
+float32 x , // c121a
+  // c121b
+char[]
+    // c122
+seqNo
+    // c123
+, // c124
+} , // c126a
+  // c126b
+repeat string // c128a
+  // c128b
+seqNo // c129a
+  // c129b
 ,
-    // c45
-}
-    // c46
+    // c130
+} // c131
+root // c132a
+  // c132b
+packet Heartbeat // c134a
+  // c134b
+{ // c135a
+  // c135b
+repeat // c136a
+  // c136b
+Leg // c137
+, u32
+    // c139
+seqNo // c140a
+  // c140b
+, u16 // c142
+tag7
+    // c143
+, // c144
+u32 Flags @lengthOf( // c147
+Body // c148a
+  // c148b
+)
+    // c149
+,
+    // c150
+match tag7 as // c153a
+  // c153b
+Body
+    // c154
+{ // c155a
+  // c155b
+[ // c156
+195
+    // c157
+,
+    // c158
+75 // c159
+] // c160a
+  // c160b
+: Party , // c163
+171 // c164
+: Fill // c166a
+  // c166b
+, 78 : // c169a
+  // c169b
+Logon // c170
+, // c171a
+  // c171b
+142
+    // c172
+: // c173
+Leg , // c175
+} , u32 // c178
+Note @calculatedFrom( ""CRC32"" // c181a
+  // c181b
+) , // c183a
+  // c183b
+} // c184
 ")).
-Eval vm_compute in ("<<<M614>>>" ++ check (runes_of_ascii "root packet
-packetx
-    {	string_  leftPad ,
-// " ++ [27880; 37322]%N ++ runes_of_ascii "
+Eval vm_compute in ("<<<M96>>>" ++ check (runes_of_ascii "root packet Logon {
+    zchar[ 65535
+]
+uint8x ,@leftPad ()repeat f32
+    Packet , @leftPad ( ' '
 //x
-} root
-    packet  o
-{x metadata `it's`, uint8
-metadata , i32
-    trueish, i64_ @calculatedFrom( ""`tick`"") ,// packet A { u8 x, }
-match matchKey  as
-repeatCount {[ //x
-""`tick`""
-]
-: Pad , 10
-    :
-    // `tick` ""quote"" 'q'
-    charz ,  7 : msg_type// c
+//	t
+) match i8i8 as  body// a // b
+{ 65535 : MetaDataX ,
+    007
+    : Packet
 }
-, float64 body
-    @calculatedFrom( ""it's"") ,x_y_z @lengthOf(Header /// triple
-),body @calculatedFrom(
-    """ ++ [28040; 24687]%N ++ runes_of_ascii """
-    )`{ , }` ,
-} options{ } // " ++ [128512]%N ++ runes_of_ascii " emoji
-options{ Z9_/// triple
-=
-    true;Z9_ = false leftPad = //x
-' 'As =char[] ;	}")).
-Eval vm_compute in ("<<<M145>>>" ++ check (runes_of_ascii "root //	t
-packet
-BodyLength { zchar[ 10
-]
-u128
-    ,
-uint8 zchar ``
-    , repeat falsey ,float64 chars@calculatedFrom( """ ++ [128512]%N ++ runes_of_ascii """
-) , char[]matchKey, repeat //x
-uint16 matchKey ,
-@calculatedFrom( ""CRC32"" ) char[ 3 ] u `" ++ [28040; 24687; 31867; 22411]%N ++ runes_of_ascii "` , @leftPad ( '0'
+,  @calculatedFrom(""packet"")uint8x ,Foo@lengthOf( asx
     //	t
-    ) u64  charz @calculatedFrom(""" ++ [128512]%N ++ runes_of_ascii """), }
-root packet chars //
-{} MetaData Z9_{ zchar[ 255 ] _x,int32 f32a , int8
-asx `` ,
-o
-packetx // `tick` ""quote"" 'q'
-, }
-    options
-// trailing space 
-// c
-{	A
-=
-4294967296
-//
-// packet A { u8 x, }
-;
-Foo = ""x y"" ;Foo =  ' ' } //	t")).
-Eval vm_compute in ("<<<M4458>>>" ++ check (runes_of_ascii "
-packet
-    lengthOf 
-{  f64
-    lengthOf
-
-@lengthOf(
-
-    a1 
-) `" ++ [28040; 24687; 31867; 22411]%N ++ runes_of_ascii "` , uint64 
-Logon
-	`" ++ [233]%N ++ runes_of_ascii "`
-, 
-string
-
-    Pad  @calculatedFrom(
-""\n""	) 
+    )
+, i64 int , //
+@leftPad ( ' ' ) repeat rootA {
+int32 zchar
+,match stringy  as MetaDataX
+    { [ """ ++ [28040; 24687]%N ++ runes_of_ascii """  , 10 ,42 , ""a\""b"" ,	42 ,7]: msg_type ,[
+    42 ]	:stringy , ""a\\"" :
+Header  255 : calculatedFrom
+    //	t
+    ,
+// a // b
 /// triple
-// trailing space 
-	,
-zchar[0123456789]Foo
-
-@lengthOf(charz	) `// not a comment`,
-
-@rightPad
-
-    (
-    ) match
-falsey as  Packet{
-	""""
-    :	u 
+[ 007// " ++ [27880; 37322]%N ++ runes_of_ascii "
+]
+    :
+/// triple
+//x
+MetaDataX , ""a\""b""
+    //	t
+    ://
+stringy // " ++ [128512]%N ++ runes_of_ascii " emoji
+, } , char[ 007  ] int @lengthOf(
+    o
+    )`" ++ [233]%N ++ runes_of_ascii "` // `tick` ""quote"" 'q'
 ,
-
-65535
+// trailing space 
+//x
+}	, @leftPad (
+//
+// @lengthOf(
+)@lengthOf(
+    metadata )match
+asx
+as leftPad { ""x y""
 :
-    float	,  [  4294967296] :
+matchKey // packet A { u8 x, }
+} // " ++ [27880; 37322]%N ++ runes_of_ascii "
+,
+    repeat  leftPad `say ""hi""` ,char[//	t
+65535// c
+] // a // b
+Packet , } root packet // a // b
+x_y_z { match uint8x as As
+    { [0123456789 ] : T
+    65535
+    :	x_y_z ""\n""
+    //
+    : u,
+    4294967296 :  Packet	[ 65535  ]: T ,
+    255 : uint8x },int32 Packet  `tab	here` , @calculatedFrom( """"
+) @calculatedFrom(
+    ""a\\"" ) u64 repeatCount
+    @calculatedFrom( """" ) , Header
+zchar
+`doc` ,
+match
+_x as	metadata // " ++ [128512]%N ++ runes_of_ascii " emoji
+{ [ 255 ,""1""	] : Logon [
+""" ++ [233]%N ++ runes_of_ascii "t" ++ [233]%N ++ runes_of_ascii """ ,00, 65535
+    ,	7 , 42	, 00	]
+:
+packetx , 4294967296 : stringy
+    //	t
+    ,}, char[00
+    ] tag `doc` ,@lengthOf(
+int )
+string u
+    ,  @tag( 007 ) int16 stringy , float64
+    crc, @calculatedFrom( ""x y""  ) repeat u16 f32a ,}options  {	u128= ""CRC32"" options1 = // packet A { u8 x, }
+false u8x= ""`tick`"";}")).
+Eval vm_compute in ("<<<M1871>>>" ++ check (runes_of_ascii "
 
-trueish // trailing space 
-  ,
+  options
+
+    {
+
+Packet =
+""packet""
+
+len
+	= 
+""packet""; charz= true  }  packet	calculatedFrom	// c
+
+{
+
+//	t
+// a // b
+	repeat // " ++ [27880; 37322]%N ++ runes_of_ascii "
+Packet
+
+,
+	uint8x @calculatedFrom( 
+	    // @lengthOf(
+	// `tick` ""quote"" 'q'
+		""\n"")
+	,@calculatedFrom( 
+""// no comment""
+)  @rightPad  /// triple
+(
+
+' '
+)
+match x
+	    //x
+    	//	t
+
+  as
+    Packet {	00 : 
+Pad
+	[0
+
+    ]:  // @lengthOf(
+	  As 
+,  }
+
+    ,  @lengthOf(	chars
+) 
+a1
+    `it's`,match 
+Logon
+
+    as	int {  ""packet"" :
+int
+[ """ ++ [28040; 24687]%N ++ runes_of_ascii """ ,
+0123456789 // trailing space 
+    ,	""x y""
+
+,
+	65535 
+        //	t
+    ]
+
+:lengthOf, 10 : asx  , [ ""// no comment"" ] 
+: zchar	, ""// no comment""
+:	a1
+//
+		// `tick` ""quote"" 'q'
+  ,	0
+
+    : len,  }// " ++ [27880; 37322]%N ++ runes_of_ascii "
+
+  , 
+match
+
+    u8x
+as MetaDataX
+{
+	[	255
+]:string_// packet A { u8 x, }
+
+,
 
     [
-10
-	, 0123456789]
-: Logon
+	""// no comment"", ""CRC32"" ]
+    : 
+metadata , 	 // packet A { u8 x, }
+    ""a\""b""  : 
+// " ++ [27880; 37322]%N ++ runes_of_ascii "
+  leftPad	},
+
+    Header`tab	here` ,} packet
+
+u128  {
+    char[
+
+10	//x
+	]
+    trueish 
+`tab	here`
+
+,
+repeat  asx
+    {
+
+match 
+len	as
+    chars{
+
+    1  : MetaDataX, 42  : roots
+    ,10
+
+    : BodyLength
+, 
+""// no comment"" :
+    o	,""a\\""
+    :	i64_,
+	}
 
     ,
 
-1
-: roots
-
-    [	7
-,
-""\" ++ [233]%N ++ runes_of_ascii """
-,00 
-        //
-		] :
-
-float,
-
 }
-
-,
-}
-
+,  }
 ")).
-Eval vm_compute in ("<<<M4610>>>" ++ check (runes_of_ascii "MetaData u {
-    int8 body,
-    string Packet,
-}
-
-options {
-    matchKey = float64;
-}
-
-packet roots {
-    // " ++ [128512]%N ++ runes_of_ascii " emoji
-    @calculatedFrom(""abc"")
-    match MetaDataX as _x {
-        007 : o,
-        [
-            42, ""x y"", 65535, 1, 65535,
-            ""a	b"", 4294967296, 00
-        ] : f32a,
-        ""CRC32"" : repeatCount,
-        ""CRC32"" : u128,
-    },
-}
-
-options {
-}
-
-MetaData uint8x {
-    char[] u128,
-    body crc `
-        `,
-    lengthOf rootA,// " ++ [128512]%N ++ runes_of_ascii " emoji
-    i8 crc,
-}")).
-Eval vm_compute in ("<<<M1192>>>" ++ check (runes_of_ascii "packet
-    x_y_z { i64 A @lengthOf( u128 ) `a\` ,
-int8
-    pack `u8 x,` ,	@calculatedFrom( """ ++ [233]%N ++ runes_of_ascii "t" ++ [233]%N ++ runes_of_ascii """ )Foo repeatCount ,//
-@calculatedFrom(	""" ++ [28040; 24687]%N ++ runes_of_ascii """
-) uint8 tag
-    // " ++ [27880; 37322]%N ++ runes_of_ascii "
-    , u32
-crc@calculatedFrom( ""a\\"" // packet A { u8 x, }
-)
-, // c
-@calculatedFrom( ""a	b"" ) string u8x
-`// not a comment`
-,
-@tag( 255  )
-    @calculatedFrom(
-""" ++ [128512]%N ++ runes_of_ascii """
-    // `tick` ""quote"" 'q'
-    )char[
-    65535
-    ] lengthOf
-    `{ , }`, u16
-    charz, } MetaData body {Logon Pad
-, } 	 ")).
-Eval vm_compute in ("<<<M458>>>" ++ check (runes_of_ascii "packet tag {match asx as u128 {""1"" : T 0123456789 // trailing space 
-:rootA ,
-    7 : i8i8	,
-65535 : // `tick` ""quote"" 'q'
-chars , }
-    ,
-zchar[
-7 ] options1 , zchar[255]
-asx, @leftPad( '0' ) stringy
-`" ++ [28040; 24687; 31867; 22411]%N ++ runes_of_ascii "`
-,  u64 zchar
-@calculatedFrom(
-    // c
-    ""\n"" )
-, len
+Eval vm_compute in ("<<<M367>>>" ++ check (runes_of_ascii "
+options {  Packet = ""packet""len
+=
+""packet"" ;
+    charz =true} packet calculatedFrom// c
+{
+//	t
+// a // b
+repeat// " ++ [27880; 37322]%N ++ runes_of_ascii "
+Packet, uint8x @calculatedFrom(
+// @lengthOf(
 // `tick` ""quote"" 'q'
-// c
-@calculatedFrom( ""// no comment""
-)  `" ++ [28040; 24687; 31867; 22411]%N ++ runes_of_ascii "`//	t
-, @leftPad(  '0' ) tag @lengthOf(	calculatedFrom ) , repeat
-    //
-    uint64 metadata`a\`,}
+""\n""
+    ) , @calculatedFrom( ""// no comment""	)
+@rightPad /// triple
+(	' ') match
+    x
+//x
+//	t
+as Packet
+{
+00 : Pad [
+0	] :// @lengthOf(
+As , }
+,
+@lengthOf( chars )
+a1 `it's` , match Logon as int { ""packet"": int [ """ ++ [28040; 24687]%N ++ runes_of_ascii """ ,0123456789 // trailing space 
+, ""x y"" , 65535
+    //	t
+    ] : lengthOf, 10:asx, [  ""// no comment"" ] :  zchar, ""// no comment"": a1
+//
+// `tick` ""quote"" 'q'
+, 0 :len
+    ,} // " ++ [27880; 37322]%N ++ runes_of_ascii "
+,
+match u8x as
+    MetaDataX
+{
+    [
+255 ]
+    :
+string_ // packet A { u8 x, }
+, [ ""// no comment"" ,	""CRC32""]: metadata,// packet A { u8 x, }
+""a\""b""	:
+    // " ++ [27880; 37322]%N ++ runes_of_ascii "
+    leftPad }, Header `tab	here`, } packet u128 {
+    char[10//x
+] trueish `tab	here`, repeat asx {
+match
+len as chars {1 : MetaDataX ,
+42 :
+    roots ,
+    10:
+BodyLength,
+""// no comment"" :
+    o , ""a\\"" :	i64_ ,
+    }
+    ,	} ,
+    }
 ")).
-Eval vm_compute in ("<<<M4187>>>" ++ check (runes_of_ascii "// top
+Eval vm_compute in ("<<<M19>>>" ++ check (runes_of_ascii "packet
+int // " ++ [27880; 37322]%N ++ runes_of_ascii "
+{ repeat // @lengthOf(
+MetaDataX // a // b
+{ //	t
+pack
+    { repeat Pad	{ i8 MetaDataX
+, repeat pack	trueish ,
+u
+    // trailing space 
+    charz	`" ++ [233]%N ++ runes_of_ascii "` ,string
+int
+, }	, f64 Z9_
+    ,
+} ,
+} // c
+,	} packet trueish {
+@lengthOf(
+    u)uint8 metadata
+    `" ++ [28040; 24687; 31867; 22411]%N ++ runes_of_ascii "` , match	uint8x
+as roots
+{ """ ++ [233]%N ++ runes_of_ascii "t" ++ [233]%N ++ runes_of_ascii """:
+    Pad 0123456789
+: msg_type// " ++ [27880; 37322]%N ++ runes_of_ascii "
+[ ""1"" ,	0 ,10] //	t
+:
+pack,
+[ ""it's"" ,  ""\" ++ [233]%N ++ runes_of_ascii """ ] :u8x
+, [// " ++ [128512]%N ++ runes_of_ascii " emoji
+0123456789 ] :
+MetaDataX
+    // packet A { u8 x, }
+    , },zchar[	00 ] pack @lengthOf( string_ ),// packet A { u8 x, }
+@tag( 4294967296 )
+x_y_z string_ ,
+    } options {A
+    =true float  =	""" ++ [28040; 24687]%N ++ runes_of_ascii """ ; }
+MetaData Header { zchar[//
+7 // `tick` ""quote"" 'q'
+]u128
+, char[]
+/// triple
+// trailing space 
+u , string_ metadata	,
+uint32 f32a `u8 x,` , } options{// trailing space 
+roots
+    =
+    true;
+int =false ; string_=
+"""" }")).
+Eval vm_compute in ("<<<M49>>>" ++ check (runes_of_ascii "packet
+i8i8 {
+    char[]
+    string_
+// " ++ [27880; 37322]%N ++ runes_of_ascii "
+//
+`tab	here` //
+, @lengthOf(
+    T )
+    @lengthOf(
+uint8x)@rightPad ( '\x00' ) zchar[ 4294967296 // packet A { u8 x, }
+]	f32a @calculatedFrom(
+// " ++ [27880; 37322]%N ++ runes_of_ascii "
+//x
+""CRC32"")
+    `it's`	, } // @lengthOf(
+root // packet A { u8 x, }
+packet	A
+    { @rightPad
+//	t
+// packet A { u8 x, }
+( )
+    @calculatedFrom(""" ++ [233]%N ++ runes_of_ascii "t" ++ [233]%N ++ runes_of_ascii """ )	string T`crlf
+line`
+    ,
+    u64 falsey `two words`
+//x
+// trailing space 
+,zchar[ 65535	] lengthOf
+`doc` , match // `tick` ""quote"" 'q'
+crc
+as int { [ ""packet"",
+    ""it's""
+    ]
+: body ,007
+:
+    // a // b
+    leftPad
+,	""{,}"" :
+    Z9_, [ 0123456789
+    , 00
+    , ""a\\"" // " ++ [128512]%N ++ runes_of_ascii " emoji
+, """ ++ [128512]%N ++ runes_of_ascii """  , ""\" ++ [233]%N ++ runes_of_ascii """
+    , ""`tick`"", ""it's"",
+    """ ++ [233]%N ++ runes_of_ascii "t" ++ [233]%N ++ runes_of_ascii """]
+: x_y_z,} // c
+,}
+")).
+Eval vm_compute in ("<<<M1810>>>" ++ check (runes_of_ascii "// top
+options {
+    // c1
+    LittleEndian = true;
+    StringPrefixLenType = u16;// c9a
+    // c9b
+    ArrayPrefixLenType = u64;// c13
+}// c14
+
+packet Fill {
+    // c17a
+    // c17b
+}
+
+packet Logon {
+    repeat char[3] Tail,// c27
+    zchar[6] venue,// c32
+    repeat string Side2,
+    // c36
+}
+
+root packet Cancel {
+    char[] Flags,
+    char[] OrderId,
+    zchar[6] msgKind,
+    // c52
+    Fill,
+    char[] Acct,// c57a
+    // c57b
+    u8 f1,
+    // c60
+    match f1 as Body {
+        188 : Fill,
+        5 : Logon,
+        // c73a
+        // c73b
+    },// c75
+    u32 clOrdID @calculatedFrom(""CRC32""),
+    // c81
+}// c82")).
+Eval vm_compute in ("<<<M1522>>>" ++ check (runes_of_ascii "// top
+packet
+    // c0
+Logon // c1
+{ string // c3
+user , // c5
+} root // c7
+packet // c8
+Frame { u8 K // c12
+,
+    // c13
+match
+    // c14
+K // c15a
+  // c15b
+as
+    // c16
+Body // c17
+{ // c18a
+  // c18b
+1 :
+    // c20
+Logon // c21a
+  // c21b
+, // c22
+2 // c23
+: Logout
+    // c25
+, // c26
+} // c27a
+  // c27b
+, // c28a
+  // c28b
+Tail // c29a
+  // c29b
+, // c30
+} packet
+    // c32
+Logout // c33
+{ // c34a
+  // c34b
+u16
+    // c35
+reason // c36
+, // c37a
+  // c37b
+} packet Tail // c40
+{
+    // c41
+u32 // c42
+crc
+    // c43
+, } ")).
+Eval vm_compute in ("<<<M1747>>>" ++ check (runes_of_ascii "// top
+    packet 
+    // c0
+float// c1a
+  // c1b
+  { // c2a
+  // c2b
+  repeat	// c3
+		i8i8 MetaDataX  // c5
+
+	`it's` // c6
+      , rootA// c8
+  ,	// c9a
+		// c9b
+  repeat 	 // c10
+    int8 // c11
+
+int  // c12
+	  ,
+match  // c14
+repeatCount	// c15
+    	as  // c16a
+    	// c16b
+	x_y_z{ 
+      // c18
+  	""{,}"" // c19a
+      // c19b
+    : 	 // c20
+    Logon  // c21
+    , 	 // c22a
+    // c22b
+}  // c23
+
+  ,// c24a
+
+  // c24b
+    }  // c25a
+	// c25b
+")).
+Eval vm_compute in ("<<<M1670>>>" ++ check (runes_of_ascii "MetaData T {
+    char[] metadata,
+    // `tick` ""quote"" 'q'
+    i8 Header,
+    u128 chars `a\`,
+    char[42] calculatedFrom,
+}// packet A { u8 x, }
+
+packet stringy {
+    @rightPad()
+    //	t
+    string trueish `two words`,
+}
+
+MetaData metadata {
+    zchar[007] x_y_z,
+    zchar[10] u `// not a comment`,
+    string u8x,
+    char[] repeatCount,
+    zchar Pad,
+    u32 f32a `doc`,
+}// `tick` ""quote"" 'q'")).
+Eval vm_compute in ("<<<M1698>>>" ++ check (runes_of_ascii "// top
+packet A {
+    // c2
+    u8 a,
+}// c6a
+
+// c6b
+packet B {
+    // c9a
+    // c9b
+    u16 b,// c12a
+    // c12b
+}
+
+// c13
+root packet P {
+    // c17
+    u8 K,// c20a
+    // c20b
+    match K as M {
+        // c25
+        [1, 2] : A,
+        // c33a
+        // c33b
+        3 : B,
+        // c37a
+        // c37b
+        7 : A,
+    },
+}// c44a
+// c44b")).
+Eval vm_compute in ("<<<M182>>>" ++ check (runes_of_ascii "packet
+// @lengthOf(
+// " ++ [128512]%N ++ runes_of_ascii " emoji
+Foo { @calculatedFrom( """" )
+@calculatedFrom(""1""
+) @rightPad () int32 As
+@calculatedFrom( """"// a // b
+)
+    `say ""hi""` // c
+, @calculatedFrom( ""\n""
+)
+// trailing space 
+/// triple
+char[// trailing space 
+65535 ] asx ,
+    repeat	int8 trueish `{ , }` ,
+} root packet lengthOf{  }")).
+Eval vm_compute in ("<<<M29>>>" ++ check (runes_of_ascii "// `tick` ""quote"" 'q'
+MetaData
+    pack {
+string MetaDataX , //
+zchar[ 65535
+] i8i8, pack rootA	`say ""hi""` ,
+    string_ Header `crlf
+line` ,
+int64
+string_ ,
+/// triple
+//	t
+char[]
+packetx
+,	} options
+    { trueish
+= ' '
+; i64_ =
+i16 pack = u16
+;
+len =false }	MetaData i64_{ }")).
+Eval vm_compute in ("<<<M1393>>>" ++ check (runes_of_ascii "packet chars // c1a
+  // c1b
+{ // c2a
+  // c2b
+} // c3a
+  // c3b
+packet
+    // c4
+MetaDataX // c5a
+  // c5b
+{ @tag( // c7a
+  // c7b
+42
+    // c8
+) i16 // c10a
+  // c10b
+string_ // c11a
+  // c11b
+, // c12a
+  // c12b
+repeat // c13
+x `say ""hi""` // c15
+, // c16a
+  // c16b
+} ")).
+Eval vm_compute in ("<<<M661>>>" ++ check (runes_of_ascii "root packet tag { }  packet MetaDataX{char[? 007	]
+// c
+/// triple
+asx  @calculatedFrom( ""a\""b""
+) `say ""hi""`// " ++ [27880; 37322]%N ++ runes_of_ascii "
+,  @tag(4294967296 )
+    char[1//x
+] packetx @calculatedFrom(""a\""b""
+    ) ,
+// " ++ [128512]%N ++ runes_of_ascii " emoji
+// a // b
+@calculatedFrom(""" ++ [233]%N ++ runes_of_ascii "t" ++ [233]%N ++ runes_of_ascii """  ) repeat pack // " ++ [27880; 37322]%N ++ runes_of_ascii "
+,
+    } // c")).
+Eval vm_compute in ("<<<M500>>>" ++ check (runes_of_ascii "root packet tag { packet  } MetaDataX{char[007	]
+// c
+/// triple
+asx  @calculatedFrom( ""a\""b""
+) `say ""hi""`// " ++ [27880; 37322]%N ++ runes_of_ascii "
+,  @tag(4294967296 )
+    char[1//x
+] packetx @calculatedFrom(""a\""b""
+    ) ,
+// " ++ [128512]%N ++ runes_of_ascii " emoji
+// a // b
+@calculatedFrom(""" ++ [233]%N ++ runes_of_ascii "t" ++ [233]%N ++ runes_of_ascii """  ) repeat pack // " ++ [27880; 37322]%N ++ runes_of_ascii "
+,
+    } // c")).
+Eval vm_compute in ("<<<M528>>>" ++ check (runes_of_ascii "root packet tag { }  packet MetaDataX{char[007	
+// c
+/// triple
+asx  @calculatedFrom( ""a\""b""
+) `say ""hi""`// " ++ [27880; 37322]%N ++ runes_of_ascii "
+,  @tag(4294967296 )
+    char[1//x
+] packetx @calculatedFrom(""a\""b""
+    ) ,
+// " ++ [128512]%N ++ runes_of_ascii " emoji
+// a // b
+@calculatedFrom(""" ++ [233]%N ++ runes_of_ascii "t" ++ [233]%N ++ runes_of_ascii """  ) repeat pack // " ++ [27880; 37322]%N ++ runes_of_ascii "
+,
+    } // c")).
+Eval vm_compute in ("<<<M1926>>>" ++ check (runes_of_ascii "// top
 options {
     // c1a
     // c1b
-    LittleEndian = true;// c5
-}
-
-// c6
-packet Logon {
-    // c9
-    u8 x,// c12
-    string user,
-    // c15
-}
-
-packet Logout {
-    // c19
-    u16 reason,// c22
-}
-
-packet Empty {
-    // c26
-}// c27
-
-root packet Frame {
-    // c31
-    u16 MsgType,// c34a
-    // c34b
-    u16 BodyLen @lengthOf(Body),
-    u8 flags,
-    Logon Body,// c46
-    u32 trailer,
-    // c49
-}// c50a
-// c50b")).
-Eval vm_compute in ("<<<M3890>>>" ++ check (runes_of_ascii "packet body {
-    Pad {
-        a1 `crlf
-                line`,
-        zchar[007] a1,
-        char[10] x_y_z,
-        repeat zchar[1] metadata `u8 x,`,
-    },
-    string trueish,
-    repeat uint8x u,
-    @tag(007)
-    calculatedFrom {
-        repeat BodyLength `doc`,
-    },
-    int64 lengthOf,/// triple
-    @lengthOf(leftPad)
-    @calculatedFrom(""x y"")
-    @calculatedFrom(""\" ++ [233]%N ++ runes_of_ascii """)
-    falsey a1,
-}")).
-Eval vm_compute in ("<<<M365>>>" ++ check (runes_of_ascii "root
-packet //x
-pack
-{ match matchKey //	t
-as
-int // @lengthOf(
-{ 00 : metadata
-    ,
-    ""a\\""
-    : o ,
-""// no comment"" :// `tick` ""quote"" 'q'
-x ,
-[
-""packet""] : A
-, [ ""\n"",0123456789 , 00 , ""// no comment"" ,007 ,
-255,
-1 ,// c
-0 ]
-    // a // b
-    : metadata ,[ 00] : Pad ,} , } // @lengthOf(
-MetaData tag
-{uint64 i64_`doc` ,
-    } packet BodyLength { repeat
-u32
-u128 , }
-")).
-Eval vm_compute in ("<<<M454>>>" ++ check (runes_of_ascii "//	t
-packet Header
-    { @tag( 0 ) float64
-    //
-    u128 , @tag(65535
-    ) pack `line1
-line2`
-,
-    @tag(1
-    // @lengthOf(
-    )trueish	{
-// " ++ [128512]%N ++ runes_of_ascii " emoji
-// c
-repeat u `it's`  ,} , @lengthOf( repeatCount )	@calculatedFrom(""it's"" )
-    @lengthOf(
-a1 ) string_@lengthOf( string_ ) , }
-MetaData leftPad	{ u8 pack	, // `tick` ""quote"" 'q'
-} packet msg_type { Z9_,
-}")).
-Eval vm_compute in ("<<<M3730>>>" ++ check (runes_of_ascii "options {
-    roots = '\x00'
-    lengthOf = true;
-    Packet = ""packet"";
-    o = ""packet"";
-    A = true;// trailing space 
-}
-
-packet body {
-    _x,
-    zchar[65535] Header @calculatedFrom("""") `u8 x,`,
-}
-
-root packet T {
-    @tag(7)
-    @tag(0)
-    @leftPad('0')
-    // a // b
-    int64 x @lengthOf(Packet),
-    msg_type stringy `" ++ [28040; 24687; 31867; 22411]%N ++ runes_of_ascii "`,
-}/// triple")).
-Eval vm_compute in ("<<<M4365>>>" ++ check (runes_of_ascii "root packet BodyLength {
-    uint16 As `crlf
-        line`,
-}
-
-packet A {
-    @calculatedFrom(""{,}"")
-    f32 trueish `// not a comment`,// `tick` ""quote"" 'q'
-}
-
-packet i8i8 {
-    zchar[007] leftPad,
-    @tag(10)
-    tag @lengthOf(o),
-    float64 T,
-    @calculatedFrom(""a\""b"")
-    string uint8x @calculatedFrom(""abc"") `two words`,
-}")).
-Eval vm_compute in ("<<<M660>>>" ++ check (runes_of_ascii "packet
-BodyLength { }
-root packet
-Logon//x
-{
-@tag(	10 ) @tag(0123456789 )
-    //x
-    repeat float32
-Pad	,	}
-    packet
-f32a{// `tick` ""quote"" 'q'
-@rightPad// " ++ [128512]%N ++ runes_of_ascii " emoji
-( ' '
-    ) // a // b
-repeat chars body , x_y_z @lengthOf( matchKey) ,
-repeat
-float64
-    //x
-    Logon
-    , repeat zchar[
-4294967296 //
-] Foo
-, }")).
-Eval vm_compute in ("<<<M1926>>>" ++ check (runes_of_ascii "MetaData
-    u { }  options {
-// c
-// @lengthOf(
-float = int8 ;rootA =false ; As As =	int16 // `tick` ""quote"" 'q'
-repeatCount
-    // trailing space 
-    =
-    int16
-; u8x =
-    //	t
-    '\x00' ; } options	{
-    repeatCount
-= 0
-u128
-    //
-    = false ; i64_
-// trailing space 
-// `tick` ""quote"" 'q'
-= '0' ; //	t
-}
-")).
-Eval vm_compute in ("<<<M2063>>>" ++ check (runes_of_ascii "MetaData
-    u { }  options {
-// c
-// @lengthOf(
-float = int8 ;rootA =false ; As =	int16 // `tick` ""quote"" 'q'
-repeatCount
-    // trailing space 
-    =
-    int16
-; u8x =
-    //	t
-    '\x00' ; " ++ [8232]%N ++ runes_of_ascii " } options	{
-    repeatCount
-= 0
-u128
-    //
-    = false ; i64_
-// trailing space 
-// `tick` ""quote"" 'q'
-= '0' ; //	t
-}
-")).
-Eval vm_compute in ("<<<M1892>>>" ++ check (runes_of_ascii "MetaData
-    u { }  options {
-// c
-// @lengthOf(
-float int8 = ;rootA =false ; As =	int16 // `tick` ""quote"" 'q'
-repeatCount
-    // trailing space 
-    =
-    int16
-; u8x =
-    //	t
-    '\x00' ; } options	{
-    repeatCount
-= 0
-u128
-    //
-    = false ; i64_
-// trailing space 
-// `tick` ""quote"" 'q'
-= '0' ; //	t
-}
-")).
-Eval vm_compute in ("<<<M2042>>>" ++ check (runes_of_ascii "MetaData
-    u { }  options {
-// c
-// @lengthOf(
-float = int8 ;rootA =false ; As =	int16 // `tick` ""quote"" 'q'
-repeatCount
-    // trailing space 
-    =
-    int16
-; u8x =
-    //	t
-    '\x00' ; } options	{
-    repeatCount
-= 0
-u128
-    //
-    = false ; i64_
-// trailing space 
-// `tick` ""quote"" 'q'
-= ; '0' //	t
-}
-")).
-Eval vm_compute in ("<<<M510>>>" ++ check (runes_of_ascii "// trailing space 
-root
-packet x_y_z //	t
-{ @leftPad (
-    )
-repeat
-rootA  {BodyLength body`
-` ,
-u8 leftPad
-@calculatedFrom( ""1""	)``,
-char[007 ] i64_ , } ,u32
-// trailing space 
-// c
-zchar `line1
-line2`, char[ 10
-    // packet A { u8 x, }
-    ]
-    //	t
-    i8i8 @calculatedFrom( """ ++ [233]%N ++ runes_of_ascii "t" ++ [233]%N ++ runes_of_ascii """ ) , }
-packet a1
-    {}
-")).
-Eval vm_compute in ("<<<M1985>>>" ++ check (runes_of_ascii "MetaData
-    u { }  options {
-// c
-// @lengthOf(
-float = int8 ;rootA =false ; As =	int16 // `tick` ""quote"" 'q'
-repeatCount
-    // trailing space 
-    =
-    int16
-; u8x =
-    //	t
-    '\x00' ; } 	{
-    repeatCount
-= 0
-u128
-    //
-    = false ; i64_
-// trailing space 
-// `tick` ""quote"" 'q'
-= '0' ; //	t
-}
-")).
-Eval vm_compute in ("<<<M4103>>>" ++ check (runes_of_ascii "root packet crc {
-    @rightPad('\x00')
-    // a // b
-    repeat i64 As,
-    // @lengthOf(
-    // a // b
-}
-
-packet body {
-}
-
-packet uint8x {
-    options1 @calculatedFrom(""a	b""),
-}
-
-MetaData Packet {
-}
-
-/// triple
-//
-MetaData falsey {
-    char[007] tag `it's`,
-    As leftPad `line1
-        line2`,
-}")).
-Eval vm_compute in ("<<<M3425>>>" ++ check (runes_of_ascii "// top
-packet
-    // c0
-o
-    // c1
-{
-    // c2
-repeat
-    // c3
-Logon
-    // c4
-uint8x
+    LittleEndian = true;
     // c5
-,
-    // c6
-}
-    // c7
-options
-    // c8
-{
+}// c6a
+
+// c6b
+packet B {
     // c9
-asx
-    // c10
-=
-    // c11
-zchar[
-    // c12
-3
-    // c13
-]
-    // c14
-stringy
-    // c15
-=
-    // c16
-'\x00'
-    // c17
-}
-    // c18
-")).
-Eval vm_compute in ("<<<M4470>>>" ++ check (runes_of_ascii "packet packetx {
-    match i64_ as roots {
-        7 : x,
-        42 : asx,
-        65535 : i64_,
-        [00, 1] : Z9_,
-        [""\n"", 3, 007] : float,
-    },
+    u8 a,// c12
+    string s,// c15
 }
 
-MetaData metadata {
-    char[] Header `" ++ [28040; 24687; 31867; 22411]%N ++ runes_of_ascii "`,
-    Foo stringy,
-    uint64 body,
-    f32 a1,
-}
-
-packet chars {
-}")).
-Eval vm_compute in ("<<<M3598>>>" ++ check (runes_of_ascii "packet MDSnapshotZZ {
-    u8 a,
-}
-packet OrderACK {
-    u16 b,
-}
-packet HTTPServerInfo {
-    string s,
-}
-root packet FIXMsg {
-    u8 KType,
-    MDSnapshotZZ,
-    repeat OrderACK,
-    match KType as Body {
-        1 : HTTPServerInfo,
-        2 : OrderACK,
-    },
-}
-")).
-Eval vm_compute in ("<<<M963>>>" ++ check (runes_of_ascii "packet falsey {
-    // a // b
-    char[]x_y_z @lengthOf(  u ) `two words` , } MetaData Packet
-{
-    char[
-3  ] rootA `line1
-line2`
-,
-    string
-    A ,
-} root packet string_ {uint8
-calculatedFrom  @lengthOf( u128 )
-`line1
-line2`, char[ 3] Z9_ ,float , }
-")).
-Eval vm_compute in ("<<<M1520>>>" ++ check (runes_of_ascii "packet
-//	t
-// trailing space 
-_x {
-// packet A { u8 x, }
+// c16
+root packet P {
+    // c20
+    u16 L @lengthOf(B),
+    B,
+    // c28
+    u8 t,// c31a
+    // c31b
+}// c32")).
+Eval vm_compute in ("<<<M618>>>" ++ check (runes_of_ascii "root packet tag { }  packet MetaDataX{char[007	]
 // c
-char[
-3
-    ] uint8 @lengthOf(
-u8x ) , @calculatedFrom(""" ++ [128512]%N ++ runes_of_ascii """ // @lengthOf(
-)
-i16	Foo
-@lengthOf(	string_
-    )`doc`	, repeat	i64 metadata , @lengthOf( string_
-) i8 // c
-u  `line1
-line2`	,
-}
-")).
-Eval vm_compute in ("<<<M1668>>>" ++ check (runes_of_ascii "packet
-//	t
-// trailing space 
-_x {
-// packet A { u8 x, }
-// c
-char[
-3
-    ] u8x @lengthOf" ++ [127]%N ++ runes_of_ascii "(
-u8x ) , @calculatedFrom(""" ++ [128512]%N ++ runes_of_ascii """ // @lengthOf(
-)
-i16	Foo
-@lengthOf(	string_
-    )`doc`	, repeat	i64 metadata , @lengthOf( string_
-) i8 // c
-u  `line1
-line2`	,
-}
-")).
-Eval vm_compute in ("<<<M1604>>>" ++ check (runes_of_ascii "packet
-//	t
-// trailing space 
-_x {
-// packet A { u8 x, }
-// c
-char[
-3
-    ] u8x @lengthOf(
-u8x ) , @calculatedFrom(""" ++ [128512]%N ++ runes_of_ascii """ // @lengthOf(
-)
-i16	Foo
-@lengthOf(	string_
-    )`doc`	, repeat	i64 , metadata @lengthOf( string_
-) i8 // c
-u  `line1
-line2`	,
-}
-")).
-Eval vm_compute in ("<<<M1491>>>" ++ check (runes_of_ascii "true
-//	t
-// trailing space 
-_x {
-// packet A { u8 x, }
-// c
-char[
-3
-    ] u8x @lengthOf(
-u8x ) , @calculatedFrom(""" ++ [128512]%N ++ runes_of_ascii """ // @lengthOf(
-)
-i16	Foo
-@lengthOf(	string_
-    )`doc`	, repeat	i64 metadata , @lengthOf( string_
-) i8 // c
-u  `line1
-line2`	,
-}
-")).
-Eval vm_compute in ("<<<M1617>>>" ++ check (runes_of_ascii "packet
-//	t
-// trailing space 
-_x {
-// packet A { u8 x, }
-// c
-char[
-3
-    ] u8x @lengthOf(
-u8x ) , @calculatedFrom(""" ++ [128512]%N ++ runes_of_ascii """ // @lengthOf(
-)
-i16	Foo
-@lengthOf(	string_
-    )`doc`	, repeat	i64 metadata , @lengthOf( 
-) i8 // c
-u  `line1
-line2`	,
-}
-")).
-Eval vm_compute in ("<<<M3612>>>" ++ check (runes_of_ascii "
-packet
-Logon{ 
-string user 
-, } 
-root packet
-
-    Frame  {
-u8
-
-K, match
-K as
-Body	{ 1
-
-:
-	Logon
-, 2
-
-    : Logout
-
-    ,  } ,
-
-Tail ,	}
-	packet
-Logout
-    {u16
-    reason  ,
-
-    }	packet Tail
-    {
-
-    u32  crc
-    , }
-")).
-Eval vm_compute in ("<<<M4139>>>" ++ check (runes_of_ascii "
-packet 	 // a // b
-	  rootA{ Z9_ 	 // c
-	  u
-
-`doc`,// packet A { u8 x, }
-i16
-
-options1
-
-    `// not a comment` , @rightPad
-    (
-    ' ') lengthOf {
-    zchar[// a // b
-    	3 // packet A { u8 x, }
-    ]body
-    , 
-},	} ")).
-Eval vm_compute in ("<<<M527>>>" ++ check (runes_of_ascii "root packet repeatCount{ T {
-char[ 255 ] T
-// c
-// packet A { u8 x, }
-`a\`,zchar[ 00// trailing space 
-]Foo	@lengthOf( repeatCount
-    )// " ++ [128512]%N ++ runes_of_ascii " emoji
-, Foo x_y_z
-, packetx @calculatedFrom( ""packet""
-    )// " ++ [27880; 37322]%N ++ runes_of_ascii "
-,
-}
-    , }
-")).
-Eval vm_compute in ("<<<M1692>>>" ++ check (runes_of_ascii "options { trueish = ""`tick`"" ""`tick`"" ; string_= """ ++ [233]%N ++ runes_of_ascii "t" ++ [233]%N ++ runes_of_ascii """
-    // c
-    } root
-    packet body { stringy @calculatedFrom(
-""a	b"" ) `line1
-line2` , }
-packet Logon {
-    @leftPad(
-    ' ' ) //	t
-u16 string_ `u8 x,` ,
-}
-")).
-Eval vm_compute in ("<<<M1699>>>" ++ check (runes_of_ascii "options { trueish = ""`tick`"" float32 string_= """ ++ [233]%N ++ runes_of_ascii "t" ++ [233]%N ++ runes_of_ascii """
-    // c
-    } root
-    packet body { stringy @calculatedFrom(
-""a	b"" ) `line1
-line2` , }
-packet Logon {
-    @leftPad(
-    ' ' ) //	t
-u16 string_ `u8 x,` ,
-}
-")).
-Eval vm_compute in ("<<<M1724>>>" ++ check (runes_of_ascii "options { trueish = ""`tick`"" ; string_= """ ++ [233]%N ++ runes_of_ascii "t" ++ [233]%N ++ runes_of_ascii """
-    // c
-    } '\x00'
-    packet body { stringy @calculatedFrom(
-""a	b"" ) `line1
-line2` , }
-packet Logon {
-    @leftPad(
-    ' ' ) //	t
-u16 string_ `u8 x,` ,
-}
-")).
-Eval vm_compute in ("<<<M422>>>" ++ check (runes_of_ascii "packet lengthOf {
-} packet
-Z9_
-{ } packet  uint8x { leftPad Foo
-    // `tick` ""quote"" 'q'
-    `" ++ [233]%N ++ runes_of_ascii "` , // c
-@calculatedFrom(
-//
 /// triple
-""\n"" ) @calculatedFrom( """ ++ [128512]%N ++ runes_of_ascii """ ) zchar[  0123456789
-    ]metadata
-,}
-")).
-Eval vm_compute in ("<<<M1799>>>" ++ check (runes_of_ascii "options { trueish = ""`tick`"" ; string_= """ ++ [233]%N ++ runes_of_ascii "t" ++ [233]%N ++ runes_of_ascii """
-    // c
-    } root
-    packet body { stringy @calculatedFrom(
-""a	b"" ) `line1
-line2` , }
-packet Logon {
-    @leftPad;
-    ' ' ) //	t
-u16 string_ `u8 x,` ,
-}
-")).
-Eval vm_compute in ("<<<M1734>>>" ++ check (runes_of_ascii "options { trueish = ""`tick`"" ; string_= """ ++ [233]%N ++ runes_of_ascii "t" ++ [233]%N ++ runes_of_ascii """
-    // c
-    } root
-    packet { { stringy @calculatedFrom(
-""a	b"" ) `line1
-line2` , }
-packet Logon {
-    @leftPad(
-    ' ' ) //	t
-u16 string_ `u8 x,` ,
-}
-")).
-Eval vm_compute in ("<<<M1162>>>" ++ check (runes_of_ascii "packet
-chars{ @tag( 7 )char options1
-    // a // b
-    @calculatedFrom( ""a\""b"" ) , Logon	,  zchar[	42 ]u128 ,} options { roots
-    =
-false ; u128 ='0' ; metadata = uint8 ;  falsey
-= //x
-true ;	}
-")).
-Eval vm_compute in ("<<<M185>>>" ++ check (runes_of_ascii "packet a1 {
-    char[ 0 ]
-len
-    `two words` , char[ 00 ]packetx ,} MetaData pack // a // b
-{	int64 a1 `crlf
-line` ,i64_  Foo,
-char[0123456789
+asx  @calculatedFrom( ""a\""b""
+) `say ""hi""`// " ++ [27880; 37322]%N ++ runes_of_ascii "
+,  @tag(4294967296 )
+    char[1//x
+] packetx @calculatedFrom(""a\""b""
+    ) ,
 // " ++ [128512]%N ++ runes_of_ascii " emoji
-// " ++ [27880; 37322]%N ++ runes_of_ascii "
-] x
-    `tab	here` ,
-    }
-
-")).
-Eval vm_compute in ("<<<M3210>>>" ++ check (runes_of_ascii "packet metadata // c1a
-  // c1b
-{ Logon // c3
-{ // c4
-A `" ++ [28040; 24687; 31867; 22411]%N ++ runes_of_ascii "`
-    // c6
-, // c7a
-  // c7b
-tag o , // c10a
-  // c10b
-} // c11a
-  // c11b
-, // c12
-zchar len // c14
-`// not a comment` , } ")).
-Eval vm_compute in ("<<<M966>>>" ++ check (runes_of_ascii "packet metadata
-    {}
-    packet charz // `tick` ""quote"" 'q'
-{
-    repeat
-string len ,string_@lengthOf(
-x_y_z )
-`" ++ [233]%N ++ runes_of_ascii "`
-, repeat asx,
-    // @lengthOf(
-    } MetaData
+// a // b
+""" ++ [233]%N ++ runes_of_ascii "t" ++ [233]%N ++ runes_of_ascii """  ) repeat pack // " ++ [27880; 37322]%N ++ runes_of_ascii "
+,
+    } // c")).
+Eval vm_compute in ("<<<M1906>>>" ++ check (runes_of_ascii "  MetaData  stringy	{
+	i16
 f32a
-    { }")).
-Eval vm_compute in ("<<<M742>>>" ++ check (runes_of_ascii "options { packetx
-=zchar[4294967296 ] ; }
-options {	} MetaData uint8x {char[ 3 ]	o `
-`
-// a // b
-// `tick` ""quote"" 'q'
-, crc string_ ,
-    char[]
-int,// trailing space 
-}")).
-Eval vm_compute in ("<<<M1201>>>" ++ check (runes_of_ascii "packet
-falsey {lengthOf
-{ char[
-    // packet A { u8 x, }
-    65535 ] Header	@calculatedFrom(""a\\""
-)
-    /// triple
-    ,
-repeat x
-len,},
-    } MetaData
-x_y_z {	}
-")).
-Eval vm_compute in ("<<<M1083>>>" ++ check (runes_of_ascii "// c
-options
-    //	t
-    {
-// `tick` ""quote"" 'q'
-/// triple
-repeatCount =
-    00 tag
-= ""{,}""MetaDataX = '0'o=
-""`tick`""
-//x
-// `tick` ""quote"" 'q'
-a1 = ""abc""
-}
-")).
-Eval vm_compute in ("<<<M2175>>>" ++ check (runes_of_ascii "options{
-_x
-= true
-} options
-{ o	= /// triple
-false
-    ; chars
-= ""\n"" } root packet	Pad
-/// triple
-// packet A { u8 x, }
-{	chars chars
-    // a // b
-    ,}")).
-Eval vm_compute in ("<<<M2326>>>" ++ check (runes_of_ascii "// c
-packet x { @lengthOf( metadata ) repeat lengthOf
-,a1{
-trueish	,// c
-repeat//	t
-MetaDataX , } , zchar[
-    42	] rootA // `tick` ""quote"" 'q'
-, ,
-    }
-")).
-Eval vm_compute in ("<<<M2081>>>" ++ check (runes_of_ascii "options{ {
-_x
-= true
-} options
-{ o	= /// triple
-false
-    ; chars
-= ""\n"" } root packet	Pad
-/// triple
-// packet A { u8 x, }
-{	chars
-    // a // b
-    ,}")).
-Eval vm_compute in ("<<<M2415>>>" ++ check (runes_of_ascii "// c
-packet x { @lengthOf( metadata ) repeat lengthOf
-,{a1
-trueish	,// c
-repeat//	t
-MetaDataX , } , zchar[
-    42	] rootA // `tick` ""quote"" 'q'
-,
-    }
-")).
-Eval vm_compute in ("<<<M2091>>>" ++ check (runes_of_ascii "options{
-_x
-true =
-} options
-{ o	= /// triple
-false
-    ; chars
-= ""\n"" } root packet	Pad
-/// triple
-// packet A { u8 x, }
-{	chars
-    // a // b
-    ,}")).
-Eval vm_compute in ("<<<M1321>>>" ++ check (runes_of_ascii "  options
-{ Pad =  zchar[ 0 ] ;
-    tag=char[ 4294967296
-    ] ; u128=	false ; } MetaData repeatCount
-    {
-u16 u128, }  options {
-leftPad
-    = '0'; }")).
-Eval vm_compute in ("<<<M2205>>>" ++ check (runes_of_ascii "options{
-_x
-= true
-} options
-{ o	= /// triple
-false
-    ; " ++ [21517; 23383]%N ++ runes_of_ascii "
-= ""\n"" } root packet	Pad
-/// triple
-// packet A { u8 x, }
-{	chars
-    // a // b
-    ,}")).
-Eval vm_compute in ("<<<M2134>>>" ++ check (runes_of_ascii "options{
-_x
-= true
-} options
-{ o	= /// triple
-false
-    ; 
-= ""\n"" } root packet	Pad
-/// triple
-// packet A { u8 x, }
-{	chars
-    // a // b
-    ,}")).
-Eval vm_compute in ("<<<M4149>>>" ++ check (runes_of_ascii "packet A {
-    match k as n {
-        [
-            ""a"", ""bb"", 007, ""d"", ""e"",
-            66, ""g"", ""h"", 9
-        ] : B,
-        2 : C,
-    },
-}")).
-Eval vm_compute in ("<<<M1337>>>" ++ check (runes_of_ascii "
-options {
-MetaDataX = 3; matchKey =
-i32 T// packet A { u8 x, }
-= 1
-    } packet Header
-{ string i64_ @lengthOf( Packet ) `say ""hi""`,
-}")).
-Eval vm_compute in ("<<<M694>>>" ++ check (runes_of_ascii "MetaData Logon
-    // a // b
-    { } packet x_y_z {} packet repeatCount
-{ lengthOf @calculatedFrom(
-""" ++ [28040; 24687]%N ++ runes_of_ascii """
-)
-    `// not a comment` ,}
-")).
-Eval vm_compute in ("<<<M443>>>" ++ check (runes_of_ascii "packet  T {
-@lengthOf(// trailing space 
-matchKey // packet A { u8 x, }
-)
-match
-u as crc { [ ""it's"",""CRC32"" ,
-3 ]:Z9_, } , }
 
-")).
-Eval vm_compute in ("<<<M1108>>>" ++ check (runes_of_ascii "options{
-i8i8 = '0';
-    Header = ""packet"" ;
-float  ='0'
-// c
-// a // b
-; MetaDataX=int32	;
-    i64_ = zchar[ 255
-    ]
-; }")).
-Eval vm_compute in ("<<<M4581>>>" ++ check (runes_of_ascii "packet
-FooBar
-    { u8
-
-    a	, 
-}	packet
-    foo_bar{u16
-	b ,
-}
-
-root
-
-    packet R{FooBar
-
-    ,  foo_bar 
-,
-}
-")).
-Eval vm_compute in ("<<<M3338>>>" ++ check (runes_of_ascii "root packet matchKey { zchar[ 3 ] pack @calculatedFrom( ""a	b"" ) `doc` , } // c
-options { } MetaData A { int8 msg_type , }")).
-Eval vm_compute in ("<<<M1448>>>" ++ check (runes_of_ascii "
-packet
-    falsey { Header@calculatedFrom(""packet""  ) , char[
-    0123456789 ] ] packetx
-    , } // `tick` ""quote"" 'q'")).
-Eval vm_compute in ("<<<M4556>>>" ++ check (runes_of_ascii "root packet
-
-    SimpleMessage
-
-    {
-    uint16
-	MsgType`" ++ [28040; 24687; 31867; 22411]%N ++ runes_of_ascii "`
 , string
 
-JsonBody
+crc `crlf
+line`,
 
-    `Json" ++ [23383; 31526; 20018; 28040; 24687; 20307]%N ++ runes_of_ascii "`
-,
+f32  o  `doc`
+, 
+float64
+calculatedFrom ,  }  packet  o{
+@leftPad  // `tick` ""quote"" 'q'
+	(
 
-    }
+)
+    string_
+@lengthOf(	packetx 	 // `tick` ""quote"" 'q'
+  	), }
 ")).
-Eval vm_compute in ("<<<M1462>>>" ++ check (runes_of_ascii "
-packet
-    falsey { Header@calculatedFrom(""packet""  ) , char[
-    0123456789 ] packetx
-    ,  // `tick` ""quote"" 'q'")).
-Eval vm_compute in ("<<<M1415>>>" ++ check (runes_of_ascii "
-packet
-    falsey { }@calculatedFrom(""packet""  ) , char[
-    0123456789 ] packetx
-    , } // `tick` ""quote"" 'q'")).
-Eval vm_compute in ("<<<M3027>>>" ++ check (runes_of_ascii "packet A {
-    u16 len @lengthOf(body) `a
+Eval vm_compute in ("<<<M1669>>>" ++ check (runes_of_ascii "  // @lengthOf(
+root packet 
+MetaDataX { repeat 
+i16 packetx
 
-b`,
-    u32 crc @calculatedFrom(""CRC32"") `a
+    , @tag(007 )
+x  @lengthOf(
+_x ), @calculatedFrom(
 
-b`,
-    string body,
-}")).
-Eval vm_compute in ("<<<M53>>>" ++ check (runes_of_ascii "MetaData
-trueish {int
-falsey , char[
-10
-    ] u  , zchar[ 007 ] leftPad , string
-x `two words`
-    ,  }
+""" ++ [28040; 24687]%N ++ runes_of_ascii """ ) repeat	Pad
+,@lengthOf(falsey) 
+@tag(00
+    ) @tag(  3
+	)string
+i8i8
+
+,	}
 ")).
-Eval vm_compute in ("<<<M3560>>>" ++ check (runes_of_ascii "options {
-    LittleEndian = true;
-}
-root packet P {
-    u16 a,
-    u32 Sum @calculatedFrom(""CRC32""),
-}
-")).
-Eval vm_compute in ("<<<M2973>>>" ++ check (runes_of_ascii "packet A {
-  match k as n {
-    [""a"", ""bb"", 007, ""d"", ""e"", 66, ""g"", ""h"", 9, ""j""] : B
-    2 : C
-  },
-}")).
-Eval vm_compute in ("<<<M3034>>>" ++ check (runes_of_ascii "packet A {
+Eval vm_compute in ("<<<M2004>>>" ++ check (runes_of_ascii "packet A {
     Inner {
-        u8 x `x
-`,
-        Deep {
-            u8 y `x
-`,
+        match k as n {
+            [
+                1, 22, 007, 4, 5,
+                66, 7, 8, 9, 10,
+                11
+            ] : B,
         },
     },
 }")).
-Eval vm_compute in ("<<<M962>>>" ++ check (runes_of_ascii "packet
-int
-    { @calculatedFrom( ""a\\""
-    ) repeat
-    // packet A { u8 x, }
-    string int, }")).
+Eval vm_compute in ("<<<M445>>>" ++ check (runes_of_ascii "packet
+    // `tick` ""quote"" 'q'
+    crc
+// packet A { u8 x, }
+//	t
+{
+u32 a1 ,
+    // trailing space 
+    roots
+charz //
+`two words`,	}
+    MetaData int int {
+} /// triple")).
+Eval vm_compute in ("<<<M694>>>" ++ check (runes_of_ascii "root packet len // trailing space 
+{
+// " ++ [27880; 37322]%N ++ runes_of_ascii "
+//	t
+char[10
+] metadata	@lengthOf( o ) `crlf
+line`,
+    @rightPad
+( ' '
+) string
+    Header @calculatedFrom( ""a\\""
+    ) ), }
+")).
+Eval vm_compute in ("<<<M451>>>" ++ check (runes_of_ascii "packet
+    // `tick` ""quote"" 'q'
+    crc
+// packet A { u8 x, }
+//	t
+{
+u32 a1 ,
+    // trailing space 
+    roots
+charz //
+`two words`,	}
+    MetaData int }
+{ /// triple")).
+Eval vm_compute in ("<<<M447>>>" ++ check (runes_of_ascii "packet
+    // `tick` ""quote"" 'q'
+    crc
+// packet A { u8 x, }
+//	t
+{
+u32 a1 ,
+    // trailing space 
+    roots
+charz //
+`two words`,	}
+    MetaData ; {
+} /// triple")).
+Eval vm_compute in ("<<<M1828>>>" ++ check (runes_of_ascii "// top
+packet o {
+    // c2
+    repeat Logon uint8x,
+    // c6
+}
+
+// c7
+options {
+    // c9
+    asx = zchar[3]
+    // c14
+    stringy = '\x00'
+    // c17
+}
+// c18")).
+Eval vm_compute in ("<<<M0>>>" ++ check (runes_of_ascii "
+packet /// triple
+uint8x	{@calculatedFrom(
+""a	b"" )
+//
+// " ++ [128512]%N ++ runes_of_ascii " emoji
+i32 charz
+    ,
+match //x
+x	as
+x {""a	b""  :
+lengthOf,} , leftPad
+    `{ , }` , } //x")).
+Eval vm_compute in ("<<<M198>>>" ++ check (runes_of_ascii "MetaData
+    //x
+    body
+    // a // b
+    { BodyLength stringy ,
+    //	t
+    zchar[ 42 ] o
+    ,
+i64_ lengthOf `{ , }` ,u8 MetaDataX  , }")).
+Eval vm_compute in ("<<<M1465>>>" ++ check (runes_of_ascii "options {
+    LittleEndian = true;
+}
+packet B {
+    u8 a,
+    string s,
+}
+root packet P {
+    u16 L @lengthOf(B),
+    B,
+    u8 t,
+}
+")).
+Eval vm_compute in ("<<<M932>>>" ++ check (runes_of_ascii "packet A {
+    u16 len @lengthOf(body) `a
+    b
+  c`,
+    u32 crc @calculatedFrom(""CRC32"") `a
+    b
+  c`,
+    string body,
+}")).
+Eval vm_compute in ("<<<M1241>>>" ++ check (runes_of_ascii "root packet matchKey { zchar[ 3 ] pack @calculatedFrom( ""a	b"" // c
+) `doc` , } options { } MetaData A { int8 msg_type , }")).
+Eval vm_compute in ("<<<M1835>>>" ++ check (runes_of_ascii "
+packet
+	A	{ 
+match  k
+as	n{	[
+
+    ""a""
+    , ""bb""  ,
+007,
+
+""d"", ""e""  , 66
+
+    ]
+	:
+B
+	2
+    :
+	C}
+
+    ,
+
+}
+")).
+Eval vm_compute in ("<<<M1968>>>" ++ check (runes_of_ascii "MetaData
+
+    float
+{ 
+float64
+
+charz  `
+` ,  }
+
+root
+packet  // c
+
+	chars
+{	@rightPad
+
+    (  '0' ) Foo  , }
+")).
+Eval vm_compute in ("<<<M1989>>>" ++ check (runes_of_ascii "MetaData  float
+	{
+
+    float64
+charz `
+`	,
+}root  packet chars { @rightPad ('0'
+
+    ) 	 // c
+	Foo,}
+")).
+Eval vm_compute in ("<<<M48>>>" ++ check (runes_of_ascii "  options { zchar =  007
+Header =
+char[// c
+007 ] ;
+    lengthOf= char[
+7 ]; chars =//
+"""" // a // b
+;
+}
+")).
+Eval vm_compute in ("<<<M1969>>>" ++ check (runes_of_ascii "
+
+  packet  A
+{
+match
+    k
+as  n{  [	""a"" ,""bb""
+
+    ,""c c""
+,
+	""d""
+	]  : 
+B  ,
+
+2 : C
+    },
+}
+
+")).
+Eval vm_compute in ("<<<M849>>>" ++ check (runes_of_ascii "packet A {
+  match k as n {
+    [""a"", ""bb"", ""c c"", ""d"", ""e"", ""f"", ""g"", ""h""] : B,
+    2 : C
+  },
+}")).
 Eval vm_compute in ("<<<M212>>>" ++ check (runes_of_ascii "root packet matchKey{f32a// " ++ [27880; 37322]%N ++ runes_of_ascii "
 `u8 x,` ,	char[]u8x ,
 @calculatedFrom( ""a\""b"" )
 i32 i8i8 , }
 
 ")).
-Eval vm_compute in ("<<<M1750>>>" ++ check (runes_of_ascii "options { trueish = ""`tick`"" ; string_= """ ++ [233]%N ++ runes_of_ascii "t" ++ [233]%N ++ runes_of_ascii """
-    // c
-    } root
-    packet body { stringy")).
-Eval vm_compute in ("<<<M3876>>>" ++ check (runes_of_ascii "packet A {
-    B b `a
-        b`,
-    B `a
-        b`,
-    repeat B bs `a
-        b`,
+Eval vm_compute in ("<<<M1596>>>" ++ check (runes_of_ascii "packet A {
+    Inner {
+        match k as n {
+            [1, 22] : B,
+        },
+    },
 }")).
-Eval vm_compute in ("<<<M3286>>>" ++ check (runes_of_ascii "MetaData float { float64 charz `
-` , } root
+Eval vm_compute in ("<<<M1200>>>" ++ check (runes_of_ascii "MetaData float { float64 charz `
+` , } root packet chars // c
+{ @rightPad ( '0' ) Foo , }")).
+Eval vm_compute in ("<<<M1411>>>" ++ check (runes_of_ascii "packet chars { } packet MetaDataX { @tag(
 // c
-packet chars { @rightPad ( '0' ) Foo , }")).
-Eval vm_compute in ("<<<M3497>>>" ++ check (runes_of_ascii "packet chars { } packet MetaDataX { // c
-@tag( 42 ) i16 string_ , repeat x `say ""hi""` , }")).
-Eval vm_compute in ("<<<M2237>>>" ++ check (runes_of_ascii "options
-{ } options { BodyLength= = u16 Header= f64 ; u128 =
-    true
-    ; } // a // b")).
-Eval vm_compute in ("<<<M2306>>>" ++ check (runes_of_ascii "options
-{ } options { BodyLength= u16 Header'= f64 ; u128 =
-    true
-    ; } // a // b")).
-Eval vm_compute in ("<<<M2263>>>" ++ check (runes_of_ascii "options
-{ } options { BodyLength= u16 Header= f64 u128 ; =
-    true
-    ; } // a // b")).
-Eval vm_compute in ("<<<M3237>>>" ++ check (runes_of_ascii "packet metadata { Logon { A `" ++ [28040; 24687; 31867; 22411]%N ++ runes_of_ascii "` , tag o , } , // c
-zchar len `// not a comment` , }")).
-Eval vm_compute in ("<<<M3427>>>" ++ check (runes_of_ascii "// c
-packet o { repeat Logon uint8x , } options { asx = zchar[ 3 ] stringy = '\x00' }")).
-Eval vm_compute in ("<<<M3460>>>" ++ check (runes_of_ascii "packet o { repeat Logon uint8x , } options { asx = zchar[ 3 ] stringy
+42 ) i16 string_ , repeat x `say ""hi""` , }")).
+Eval vm_compute in ("<<<M840>>>" ++ check (runes_of_ascii "packet A {
+  match k as n {
+    [""a"", 22, ""c c"", 4, ""e"", 66, ""g""] : B,
+    2 : C
+  },
+}")).
+Eval vm_compute in ("<<<M1141>>>" ++ check (runes_of_ascii "packet metadata { Logon { A `" ++ [28040; 24687; 31867; 22411]%N ++ runes_of_ascii "` , tag
 // c
-= '\x00' }")).
-Eval vm_compute in ("<<<M2256>>>" ++ check (runes_of_ascii "options
-{ } options { BodyLength= u16 Header=  ; u128 =
-    true
-    ; } // a // b")).
-Eval vm_compute in ("<<<M3403>>>" ++ check (runes_of_ascii "MetaData body { i64 pack
-// c
-`it's` , } packet stringy { int16 calculatedFrom , }")).
-Eval vm_compute in ("<<<M2917>>>" ++ check (runes_of_ascii "packet A {
+o , } , zchar len `// not a comment` , }")).
+Eval vm_compute in ("<<<M1346>>>" ++ check (runes_of_ascii "packet o { repeat // c
+Logon uint8x , } options { asx = zchar[ 3 ] stringy = '\x00' }")).
+Eval vm_compute in ("<<<M1844>>>" ++ check (runes_of_ascii "
+packet
+	A 
+{ match	k  as n
+{
+	[
+    ""a""	,22
+,
+""c c"" 
+,4
+]
+    :	B
+2 
+:C
+} , } ")).
+Eval vm_compute in ("<<<M1307>>>" ++ check (runes_of_ascii "MetaData body // c
+{ i64 pack `it's` , } packet stringy { int16 calculatedFrom , }")).
+Eval vm_compute in ("<<<M828>>>" ++ check (runes_of_ascii "packet A {
   match k as n {
     [""a"", 22, ""c c"", 4, ""e"", 66] : B
     2 : C
   },
 }")).
-Eval vm_compute in ("<<<M3000>>>" ++ check (runes_of_ascii "packet A { Inner { match k as n { [1,22,007,4,5,66,7,8,9,10,11,12] : B, }, }, }")).
-Eval vm_compute in ("<<<M4120>>>" ++ check (runes_of_ascii "
-options
-	{	x_y_z
-
-=  true
-;
-	a1
-=
-
-true
-
-    ;
-
-options1
-=
-	true
-;}
-")).
-Eval vm_compute in ("<<<M4410>>>" ++ check (runes_of_ascii "packet A
-{match k as n
-{ [  1, ""bb""
-, 
-007  , 
-""d""	]
-: 
-B
-2:  C}
-, }
-
-")).
-Eval vm_compute in ("<<<M760>>>" ++ check (runes_of_ascii "packet	i64_ { }options{
-    } options { MetaDataX = ""CRC32""} // a // b")).
-Eval vm_compute in ("<<<M3171>>>" ++ check (runes_of_ascii "packet A { match k as n { [ // a
+Eval vm_compute in ("<<<M703>>>" ++ check (runes_of_ascii "root packet len // trailing space 
+{
+// " ++ [27880; 37322]%N ++ runes_of_ascii "
+//	t
+char[10
+] metadata	@lengthOf(")).
+Eval vm_compute in ("<<<M808>>>" ++ check (runes_of_ascii "packet A {
+  match k as n {
+    [1, 22, 007, 4, 5] : B,
+    2 : C
+  },
+}")).
+Eval vm_compute in ("<<<M1082>>>" ++ check (runes_of_ascii "packet A { match k as n { [ // a
  1 // b
  , // c
  2 ] // d
  : B }, }")).
-Eval vm_compute in ("<<<M2864>>>" ++ check (runes_of_ascii "packet A {
-  match k as n {
-    [""a"", ""bb""] : B,
-    2 : C
-  },
-}")).
-Eval vm_compute in ("<<<M4028>>>" ++ check (runes_of_ascii "
+Eval vm_compute in ("<<<M1484>>>" ++ check (runes_of_ascii "
 
-  root packet P
-	{
-repeat 
-char
-
-    cs	,u8
-
-x
-
-    , }
-")).
-Eval vm_compute in ("<<<M3032>>>" ++ check (runes_of_ascii "packet A {
-    B b `x
-`,
-    B `x
-`,
-    repeat B bs `x
-`,
-}")).
-Eval vm_compute in ("<<<M3173>>>" ++ check (runes_of_ascii "packet A { // a
- @tag(1) u8 x, // b
- // c
- @tag(2) u8 y, }")).
-Eval vm_compute in ("<<<M2857>>>" ++ check (runes_of_ascii "packet A {
-  match k as n {
-    [1] : B,
-    2 : C
-  },
-}")).
-Eval vm_compute in ("<<<M3972>>>" ++ check (runes_of_ascii "
-
-  root 
+  root
 packet
-repeatCount{
-	} // trailing space 
- 
-")).
-Eval vm_compute in ("<<<M2820>>>" ++ check (runes_of_ascii "true uint8 char[ char[ false i16 @tag( match char[")).
-Eval vm_compute in ("<<<M2790>>>" ++ check (runes_of_ascii ", , [ = '\x00' string zchar '\x00' char[ ; root")).
-Eval vm_compute in ("<<<M2255>>>" ++ check (runes_of_ascii "options
-{ } options { BodyLength= u16 Header")).
-Eval vm_compute in ("<<<M3179>>>" ++ check (runes_of_ascii "packet A { char[ // a
- 3 // b
- ] // c
- x, }")).
-Eval vm_compute in ("<<<M2610>>>" ++ check (runes_of_ascii "packet A { match k as n { [1 2] : B }, }")).
-Eval vm_compute in ("<<<M2609>>>" ++ check (runes_of_ascii "packet A { match k as n { [1,] : B }, }")).
-Eval vm_compute in ("<<<M3813>>>" ++ check (runes_of_ascii "packet A {
-    u8 x `a
-        b`,
-}")).
-Eval vm_compute in ("<<<M2561>>>" ++ check (runes_of_ascii "packet A { repeat x @lengthOf(y), }")).
-Eval vm_compute in ("<<<M4491>>>" ++ check (runes_of_ascii "root packet Z9_ {
-    // " ++ [128512]%N ++ runes_of_ascii " emoji
-}")).
-Eval vm_compute in ("<<<M3042>>>" ++ check (runes_of_ascii "root packet A {
-    u8 x `
-x`,
-}")).
-Eval vm_compute in ("<<<M2700>>>" ++ check (runes_of_ascii "Pad as char root float32 : u16")).
-Eval vm_compute in ("<<<M1889>>>" ++ check (runes_of_ascii "MetaData
-    u { }  options {")).
-Eval vm_compute in ("<<<M2624>>>" ++ check (runes_of_ascii "packet A { @leftPad u8 x, }")).
-Eval vm_compute in ("<<<M3253>>>" ++ check (runes_of_ascii "
-// c
-root packet pack { }")).
-Eval vm_compute in ("<<<M4603>>>" ++ check (runes_of_ascii "MetaData 	 // c
-	o { }
-")).
-Eval vm_compute in ("<<<M51>>>" ++ check (runes_of_ascii "packet BodyLength {}
-")).
-Eval vm_compute in ("<<<M4266>>>" ++ check (runes_of_ascii "
-packet A
-{ } 
-// c" ++ [6158]%N)).
-Eval vm_compute in ("<<<M1695>>>" ++ check (runes_of_ascii "options { trueish =")).
-Eval vm_compute in ("<<<M1879>>>" ++ check (runes_of_ascii "MetaData
-    u { }")).
-Eval vm_compute in ("<<<M3123>>>" ++ check (runes_of_ascii "packet A {
-}// c 	")).
-Eval vm_compute in ("<<<M3083>>>" ++ check (runes_of_ascii "packet A {
-}// c" ++ [8192]%N)).
-Eval vm_compute in ("<<<M915>>>" ++ check (runes_of_ascii "packet body { }")).
-Eval vm_compute in ("<<<M2840>>>" ++ check (runes_of_ascii "x" ++ [65533]%N ++ runes_of_ascii "V" ++ [65533; 65533; 65533]%N ++ runes_of_ascii "yj" ++ [65533; 65533; 65533]%N ++ runes_of_ascii "w" ++ [65533]%N)).
-Eval vm_compute in ("<<<M2486>>>" ++ check (runes_of_ascii "@centerPad")).
-Eval vm_compute in ("<<<M132>>>" ++ check (runes_of_ascii "
 
-// c
+P { repeat
+string
+ss
+
+,	repeat u16 ns
+,
+
+}
+
 ")).
-Eval vm_compute in ("<<<M2513>>>" ++ check (runes_of_ascii """a\
-b""")).
-Eval vm_compute in ("<<<M2752>>>" ++ check (runes_of_ascii "x\SS\")).
-Eval vm_compute in ("<<<M2503>>>" ++ check (runes_of_ascii "//x")).
-Eval vm_compute in ("<<<M2525>>>" ++ check (runes_of_ascii "`""`")).
-Eval vm_compute in ("<<<M2508>>>" ++ check (runes_of_ascii """a")).
-Eval vm_compute in ("<<<M2791>>>" ++ check ([65533]%N)).
+Eval vm_compute in ("<<<M1482>>>" ++ check (runes_of_ascii "root packet P {
+    repeat string ss,
+    repeat u16 ns,
+}
+")).
+Eval vm_compute in ("<<<M1654>>>" ++ check (runes_of_ascii "
+root
+packet  u128	// c
+  {
+
+    chars  `it's`
+    ,
+	}
+")).
+Eval vm_compute in ("<<<M2008>>>" ++ check (runes_of_ascii "root 
+packet
+
+P  {
+char
+c
+,
+
+    u8
+    x
+	, } ")).
+Eval vm_compute in ("<<<M1842>>>" ++ check (runes_of_ascii "  MetaData	pack	{
+f64
+    A	`{ , }`	,
+    }
+
+")).
+Eval vm_compute in ("<<<M1943>>>" ++ check (runes_of_ascii "root packet zchar {
+    zchar[007] Foo,
+}")).
+Eval vm_compute in ("<<<M1662>>>" ++ check (runes_of_ascii "root packet u128 {
+    chars `it's`,
+}")).
+Eval vm_compute in ("<<<M917>>>" ++ check (runes_of_ascii "root packet A {
+    u8 x `a
+b`,
+}")).
+Eval vm_compute in ("<<<M1008>>>" ++ check (runes_of_ascii "packet A {
+ u8 x `d" ++ [8232]%N ++ runes_of_ascii "`, // c" ++ [8232]%N ++ runes_of_ascii "
+}")).
+Eval vm_compute in ("<<<M1659>>>" ++ check (runes_of_ascii "packet A {
+    char[3] x,
+}")).
+Eval vm_compute in ("<<<M141>>>" ++ check (runes_of_ascii "packet Header {
+    }
+")).
+Eval vm_compute in ("<<<M2125>>>" ++ check (runes_of_ascii "packet options1 {} ")).
+Eval vm_compute in ("<<<M1046>>>" ++ check (runes_of_ascii "packet A {
+}
+// c" ++ [65279]%N)).
+Eval vm_compute in ("<<<M653>>>" ++ check (runes_of_ascii "root packet tag ")).
+Eval vm_compute in ("<<<M241>>>" ++ check (runes_of_ascii "
+
+//x
+")).
+Eval vm_compute in ("<<<M333>>>" ++ check (runes_of_ascii "
+
+")).
